@@ -367,6 +367,16 @@ theorem convLoopBody_ifBlock : ∀ (ss : List Stmt) (L : Locals) (lo : VSet) {L'
     rw [h2']
     rfl
 
+theorem condNodes_for {brkCond : Option Name} {oc co : Name} {cns : List Node} {s s' : St}
+    (h : condNodes none brkCond oc s = .ok ((co, cns), s')) :
+    genUnique "cond_out" s = .ok (co, s') ∧ cns = [condNode brkCond oc co] := by
+  unfold condNodes at h
+  simp only at h
+  mbind h with c s1 h1
+  obtain ⟨e1, e2⟩ := pure_ok h
+  cases e1; subst e2
+  exact ⟨h1, rfl⟩
+
 theorem loopParams_eq : ∀ (state : List Name) (L0 : Locals) {L1 : Locals} {ps : List Name} {s s' : St},
     loopParams L0 state s = .ok ((L1, ps), s') → L1 = bindVals L0 state ps ∧ ps.length = state.length := by
   intro state
@@ -573,9 +583,9 @@ theorem loopParams_castable : ∀ (state : List Name) (L0 : Locals) {L1 : Locals
     rw [ih _ h2, (genUnique_spec h1).2.2]
 
 /-- Decomposition of `loopEnter`. -/
-theorem loopEnter_parts {L : Locals} {v : Name} {state : List Name} {L1 : Locals} {iv : Name}
-    {ps : List Name} {s s' : St} (h : loopEnter L v state s = .ok ((L1, iv, ps), s')) :
-    L1 = bindVals (bindVar ([] :: L) v (.val iv)) state ps ∧ ps.length = state.length
+theorem loopEnter_parts {L : Locals} {v : Name} {bindIt : Bool} {state : List Name} {L1 : Locals} {iv : Name}
+    {ps : List Name} {s s' : St} (h : loopEnter L v bindIt state s = .ok ((L1, iv, ps), s')) :
+    L1 = bindVals (loopScope L v bindIt iv) state ps ∧ ps.length = state.length
       ∧ s'.castable = s.castable ∧ CastOK s s' := by
   unfold loopEnter at h
   mbind h with iv' s1 h1
@@ -641,7 +651,7 @@ theorem for_step (S : Sem V) (fuel : Nat) (hConst : ∀ l, ∃ c, constOf S l = 
     {i : Name} {b : Expr} {body : List Stmt} {lo d : VSet} {ρ ρ' : Store V} {L L' : Locals} {env : Env V}
     {s s' : St} {ns : List Node}
     (hb : tensorRhs b = true) (hbody : ifBlock body = true) (hd : assignedBlock body = some d)
-    (hid : i ∉ d) (hilo : i ∉ lo)
+    (hid : i ∉ d)
     (hF : ForLive i body lo (loopBodyLo (.for_ i true b body) lo))
     (hinv : Inv S (liveInStmt (.for_ i true b body) lo) ρ L env s)
     (he : evalStmt S fuel (.for_ i true b body) ρ = some (.normal ρ'))
@@ -675,6 +685,13 @@ theorem for_step (S : Sem V) (fuel : Nat) (hConst : ∀ l, ∃ c, constOf S l = 
         obtain ⟨ob, ns0⟩ := p
         try dsimp only at h
         mbind h with condIn s2 h2
+        have hnl := (forCondIn_ok h2).1
+        have h2 := (forCondIn_ok h2).2
+        have hilo : i ∉ lo := by
+          intro hm
+          have hc := List.contains_iff_mem.mpr hm
+          rw [hnl] at hc
+          cases hc
         mbind h with p s3 h3
         obtain ⟨L1, iv, ps⟩ := p
         try dsimp only at h
@@ -694,7 +711,14 @@ theorem for_step (S : Sem V) (fuel : Nat) (hConst : ∀ l, ∃ c, constOf S l = 
         clear h4c
         unfold loopFinish at h5
         simp only [loopCondName] at h5
-        mbind h5 with condOut s4a h5a
+        mbind h5 with p s4a h5a
+        obtain ⟨condOut, cns⟩ := p
+        try dsimp only at h5
+        obtain ⟨h5a', hcns⟩ := condNodes_for h5a
+        subst hcns
+        clear h5a
+        have h5a := h5a'
+        clear h5a'
         mbind h5 with p s4b h5b
         obtain ⟨os, ns3⟩ := p
         try dsimp only at h5
@@ -737,6 +761,7 @@ theorem for_step (S : Sem V) (fuel : Nat) (hConst : ∀ l, ∃ c, constOf S l = 
         obtain ⟨hcfresh, hcused, hccast⟩ := genUnique_spec h2
         have k2 := genUnique_cast h2
         obtain ⟨hL1eq, hpslen, hc3, k3⟩ := loopEnter_parts h3
+        simp only [loopScope, if_true] at hL1eq
         obtain ⟨m3, f3⟩ := loopEnter_fresh h3
         have hps_nodup : ps.Nodup := (List.nodup_cons.mp f3.1).2
         have hiv_ps : iv ∉ ps := (List.nodup_cons.mp f3.1).1
@@ -982,6 +1007,1426 @@ theorem for_step (S : Sem V) (fuel : Nat) (hConst : ∀ l, ∃ c, constOf S l = 
             · rw [lookup_bindVals_notin _ _ _ hys] at hl
               exact halF.dom y (hinv.bound y m hl)
 
+/-! ## Loop bodies that end in `if t: break` -/
+
+/-- The trailing statement `if t: break`. -/
+def brkTail (t : Name) : List Stmt := [.brk (.var t)]
+
+theorem liveInBlock_append : ∀ (a b : List Stmt) (X : VSet),
+    liveInBlock (a ++ b) X = liveInBlock a (liveInBlock b X) := by
+  intro a
+  induction a with
+  | nil => intro b X; simp [liveInBlock]
+  | cons st ss ih => intro b X; simp only [List.cons_append, liveInBlock, ih]
+
+theorem exposedBlock_append : ∀ (a b : List Stmt) (X : VSet),
+    exposedBlock (a ++ b) X = exposedBlock a (exposedBlock b X) := by
+  intro a
+  induction a with
+  | nil => intro b X; simp [exposedBlock]
+  | cons st ss ih => intro b X; simp only [List.cons_append, exposedBlock, ih]
+
+theorem live_brk (pre : List Stmt) (t : Name) (X : VSet) :
+    liveInBlock (pre ++ brkTail t) X = liveInBlock pre (vunion X [t]) := by
+  rw [liveInBlock_append]; simp [brkTail, liveInBlock, liveInStmt, usedVars]
+
+theorem exposed_brk {pre : List Stmt} (t : Name) (hp : ifBlock pre = true) :
+    exposedBlock (pre ++ brkTail t) [] = liveInBlock (pre ++ brkTail t) [] := by
+  rw [exposedBlock_append, live_brk, exposed_eq_live_block pre _ hp]
+  simp [brkTail, exposedBlock, exposedStmt, usedVars]
+
+theorem assigned_brk : ∀ (pre : List Stmt) (t : Name), assignedBlock (pre ++ brkTail t) = assignedBlock pre := by
+  intro pre t
+  induction pre with
+  | nil => simp [brkTail, assignedBlock, assignedStmt, vunion]
+  | cons st ss ih => simp only [List.cons_append, assignedBlock, ih]
+
+theorem live_rel_brk {pre : List Stmt} {t : Name} (hp : ifBlock pre = true) {X : VSet} {y : Name}
+    (h : y ∈ liveInBlock (pre ++ brkTail t) X) : y ∈ liveInBlock (pre ++ brkTail t) [] ∨ y ∈ X := by
+  rw [live_brk] at h ⊢
+  refine live_rel_block pre hp ?_ h
+  intro z hz
+  rcases mem_vunion.mp hz with h' | h'
+  · exact Or.inr h'
+  · exact Or.inl (mem_vunion.mpr (Or.inr h'))
+
+theorem live_mono_brk {pre : List Stmt} {t : Name} (hp : ifBlock pre = true) {Z A : VSet} {y : Name}
+    (hz : ∀ x, x ∈ Z → x ∈ A) (h : y ∈ liveInBlock (pre ++ brkTail t) Z) :
+    y ∈ liveInBlock (pre ++ brkTail t) A := by
+  rw [live_brk] at h ⊢
+  refine live_mono_block hp ?_ h
+  intro x hx
+  rcases mem_vunion.mp hx with h' | h'
+  · exact mem_vunion.mpr (Or.inl (hz x h'))
+  · exact mem_vunion.mpr (Or.inr h')
+
+/-- `ForLive` from the fixpoint test, for any body whose liveness splits (`if` fragment, with or without a
+trailing break). -/
+theorem forLive_of_stable' {i : Name} {ok : Bool} {b : Expr} {body : List Stmt} {lo : VSet}
+    (hrel : ∀ (X : VSet) (y : Name), y ∈ liveInBlock body X → y ∈ liveInBlock body [] ∨ y ∈ X)
+    (hst : stableStmt (.for_ i ok b body) lo = true) :
+    ForLive i body lo (loopBodyLo (.for_ i ok b body) lo) := by
+  unfold stableStmt at hst
+  simp only [Bool.and_eq_true] at hst
+  obtain ⟨⟨h1, h2⟩, _⟩ := hst
+  refine ⟨vsubset_mem h1, ?_, ?_⟩
+  · intro y hy hne
+    exact vsubset_mem h2 y (mem_vdiff.mpr ⟨hy, by simpa using hne⟩)
+  · simp only [loopBodyLo]
+    apply fixIter_inv (fun X => ∀ y, y ∈ X → y ∈ liveInBlock body [] ∨ y ∈ lo)
+    · intro X hX y hy
+      rcases mem_vunion.mp hy with h | h
+      · obtain ⟨h, _⟩ := mem_vdiff.mp h
+        rcases hrel X y h with h' | h'
+        · exact Or.inl h'
+        · exact hX y h'
+      · exact Or.inr h
+    · intro y hy; exact Or.inr hy
+
+theorem evalBlock_append (S : Sem V) (fuel : Nat) : ∀ (a b : List Stmt) (ρ : Store V),
+    evalBlock S fuel (a ++ b) ρ =
+      match evalBlock S fuel a ρ with
+      | some (.normal ρ') => evalBlock S fuel b ρ'
+      | other => other := by
+  intro a
+  induction a with
+  | nil => intro b ρ; simp [evalBlock]
+  | cons st ss ih =>
+    intro b ρ
+    simp only [List.cons_append]
+    rw [evalBlock, evalBlock]
+    cases hs : evalStmt S fuel st ρ with
+    | none => rfl
+    | some o =>
+      cases o with
+      | normal ρ1 => simp only []; exact ih b ρ1
+      | broke ρ1 => rfl
+      | returned vs => rfl
+
+/-- One run of a body `pre; if t: break`. -/
+theorem brkBody_run (S : Sem V) (fuel : Nat) {pre : List Stmt} {t : Name} (hp : ifBlock pre = true)
+    {ρ : Store V} {o : Outcome V} (hρ : AllT ρ)
+    (h : evalBlock S fuel (pre ++ brkTail t) ρ = some o) :
+    ∃ ρ1 v bk, evalBlock S fuel pre ρ = some (.normal ρ1) ∧ RunOK ρ ρ1 (assignedBlock pre) ∧
+      ρ1 t = some (.t v) ∧ S.truth v = some bk ∧ o = (if bk then .broke ρ1 else .normal ρ1) := by
+  rw [evalBlock_append] at h
+  cases hb : evalBlock S fuel pre ρ with
+  | none => simp [hb] at h
+  | some o1 =>
+    obtain ⟨ρ1, rfl, run1⟩ := ifBlock_run S fuel pre hp hρ hb
+    simp only [hb, brkTail, evalBlock, evalStmt, evalExpr] at h
+    cases ht : ρ1 t with
+    | none => simp [ht] at h
+    | some cv =>
+      obtain ⟨v, rfl⟩ := run1.allT t cv ht
+      simp only [ht, truthPV] at h
+      cases hv : S.truth v with
+      | none => simp [hv] at h
+      | some bk =>
+        simp only [hv] at h
+        refine ⟨ρ1, v, bk, rfl, run1, ht, hv, ?_⟩
+        cases bk with
+        | true => simp only [if_true] at h ⊢; injection h with h; exact h.symm
+        | false => simp only [Bool.false_eq_true, if_false] at h ⊢; injection h with h; exact h.symm
+
+theorem iterForB_run (S : Sem V) (fuel : Nat) (i : Name) {pre : List Stmt} {t : Name} (hi : ifBlock pre = true) :
+    ∀ (left k : Nat) {ρ : Store V} {o : Outcome V}, AllT ρ →
+      iterFor S i (fun r => evalBlock S fuel (pre ++ brkTail t) r) left k ρ = some o → ∃ ρ', o = .normal ρ' := by
+  intro left
+  induction left with
+  | zero =>
+    intro k ρ o hρ h
+    simp only [iterFor] at h
+    cases h
+    exact ⟨ρ, rfl⟩
+  | succ n ih =>
+    intro k ρ o hρ h
+    simp only [iterFor] at h
+    cases hb : evalBlock S fuel (pre ++ brkTail t) (ρ.set i (.t (S.ofNat k))) with
+    | none => simp [hb] at h
+    | some o1 =>
+      obtain ⟨ρ1, v, bk, _, run1, _, _, rfl⟩ := brkBody_run S fuel hi (hρ.set i (S.ofNat k)) hb
+      simp only [hb] at h
+      cases bk with
+      | true => simp only [if_true] at h; cases h; exact ⟨ρ1, rfl⟩
+      | false => simp only [Bool.false_eq_true, if_false] at h; exact ih (k + 1) run1.allT h
+
+theorem convLoopBody_brk (t : Name) : ∀ (pre : List Stmt) (L : Locals) (lo : VSet) {L' : Locals}
+    {ns : List Node} {bc : Option Name} {s s' : St}, ifBlock pre = true →
+    convLoopBody L (pre ++ brkTail t) lo s = .ok ((L', ns, bc), s') →
+    convStmts L pre (vunion lo [t]) s = .ok ((L', ns), s') ∧
+      ∃ n, bc = some n ∧ currentScopeFind L' t = some (.val n) := by
+  intro pre
+  induction pre with
+  | nil =>
+    intro L lo L' ns bc s s' _ h
+    simp only [List.nil_append, brkTail] at h
+    unfold convLoopBody at h
+    simp only [List.isEmpty_nil, Bool.not_true, Bool.false_eq_true, if_false] at h
+    cases hc : currentScopeFind L t with
+    | none => simp only [hc] at h; exact (failM_ok h).elim
+    | some bnd =>
+      cases bnd with
+      | attr p ty => simp only [hc] at h; exact (failM_ok h).elim
+      | val n =>
+        simp only [hc] at h
+        obtain ⟨e1, e2⟩ := pure_ok h
+        cases e1; subst e2
+        exact ⟨by simp [convStmts, pure, M.pure], n, rfl, hc⟩
+  | cons st ss ih =>
+    intro L lo L' ns bc s s' hi h
+    simp only [ifBlock, Bool.and_eq_true] at hi
+    simp only [List.cons_append] at h
+    rw [convLoopBody_cons_nonbrk L st (ss ++ brkTail t) lo (ifStmt_not_brk hi.1)] at h
+    mbind h with p s1 h1
+    obtain ⟨L1, ns1⟩ := p
+    try dsimp only at h
+    mbind h with p s2 h2
+    obtain ⟨L2, ns2, bc'⟩ := p
+    try dsimp only at h
+    obtain ⟨e1, e2⟩ := pure_ok h
+    cases e1; subst e2
+    obtain ⟨h2', n, hbc, hcur⟩ := ih L1 lo hi.2 h2
+    refine ⟨?_, n, hbc, hcur⟩
+    rw [live_brk] at h1
+    unfold convStmts
+    show (M.bind (convStmt L st (liveInBlock ss (vunion lo [t]))) _) s = _
+    unfold M.bind
+    rw [h1]
+    simp only
+    show (M.bind (convStmts L1 ss (vunion lo [t])) _) s1 = _
+    unfold M.bind
+    rw [h2']
+    rfl
+
+/-- The same for a body `pre; if t: break`: `cond_out = Not(t)`, and the iteration stops after the first body run
+that leaves `t` true, keeping that run's state. -/
+theorem forB_step (S : Sem V) (fuel : Nat) (hConst : ∀ l, ∃ c, constOf S l = some c)
+    (hId : ∀ v, S.op "" "Identity" [some v] [] = some [v]) (hT : S.truth (S.ofBool true) = some true)
+    (hNot : ∀ v bk, S.truth v = some bk → ∃ w, S.op "" "Not" [some v] [] = some [w] ∧ S.truth w = some (!bk))
+    {i : Name} {b : Expr} {pre body : List Stmt} {t : Name} {lo d : VSet} {ρ ρ' : Store V} {L L' : Locals}
+    {env : Env V} {s s' : St} {ns : List Node} (hbd : body = pre ++ brkTail t)
+    (hb : tensorRhs b = true) (hp : ifBlock pre = true) (hd : assignedBlock pre = some d)
+    (hid : i ∉ d)
+    (hF : ForLive i body lo (loopBodyLo (.for_ i true b body) lo))
+    (hinv : Inv S (liveInStmt (.for_ i true b body) lo) ρ L env s)
+    (he : evalStmt S fuel (.for_ i true b body) ρ = some (.normal ρ'))
+    (h : convStmt L (.for_ i true b body) lo s = .ok ((L', ns), s')) :
+    ∃ G env', evalNodes S G env ns = some env' ∧ Inv S lo ρ' L' env' s' ∧ Ext env env' s s' ∧ Mono s s' := by
+  have hlive : ∀ X, liveInBlock body X = liveInBlock pre (vunion X [t]) := by
+    intro X; rw [hbd]; exact live_brk pre t X
+  have hexp : exposedBlock body [] = liveInBlock body [] := by rw [hbd]; exact exposed_brk t hp
+  have hdb : assignedBlock body = some d := by rw [hbd, assigned_brk]; exact hd
+  have hrel : ∀ (X : VSet) (y : Name), y ∈ liveInBlock body X → y ∈ liveInBlock body [] ∨ y ∈ X := by
+    intro X y hy; rw [hbd] at hy ⊢; exact live_rel_brk hp hy
+  have hmono : ∀ {Z A : VSet} {y : Name}, (∀ x, x ∈ Z → x ∈ A) → y ∈ liveInBlock body Z →
+      y ∈ liveInBlock body A := by
+    intro Z A y hz hy; rw [hbd] at hy ⊢; exact live_mono_brk hp hz hy
+  have hfr := convStmt_fresh L _ lo h
+  have hsc := convStmt_scope L _ lo hinv.vis (fun x hx => hx) h
+  generalize hFdef : loopBodyLo (.for_ i true b body) lo = F at hF h
+  have hLin : liveInStmt (.for_ i true b body) lo = vunion F (usedVars b) := by
+    rw [← hFdef]; simp [liveInStmt, loopBodyLo]
+  -- source side
+  unfold evalStmt at he
+  simp only [Bool.not_true, Bool.false_eq_true, if_false] at he
+  cases hbe : evalExpr S ρ b with
+  | none => simp [hbe] at he
+  | some bv =>
+    obtain ⟨bvv, rfl⟩ := tensorRhs_result hinv.allT hb hbe
+    simp only [hbe, natPV] at he
+    cases hn : S.natOf bvv with
+    | none => simp [hn] at he
+    | some n =>
+      simp only [hn] at he
+      -- converter side
+      unfold convStmt at h
+      simp only [Bool.not_true, Bool.false_eq_true, if_false] at h
+      cases hs : loopState body lo with
+      | none => simp only [hs] at h; exact (failM_ok h).elim
+      | some state =>
+        simp only [hs] at h
+        mbind h with p s1 h1
+        obtain ⟨ob, ns0⟩ := p
+        try dsimp only at h
+        mbind h with condIn s2 h2
+        have hnl := (forCondIn_ok h2).1
+        have h2 := (forCondIn_ok h2).2
+        have hilo : i ∉ lo := by
+          intro hm
+          have hc := List.contains_iff_mem.mpr hm
+          rw [hnl] at hc
+          cases hc
+        mbind h with p s3 h3
+        obtain ⟨L1, iv, ps⟩ := p
+        try dsimp only at h
+        mbind h with p s4 h4
+        obtain ⟨L2, bn, bc⟩ := p
+        try dsimp only at h
+        mbind h with p s5 h5
+        obtain ⟨L'', nl⟩ := p
+        try dsimp only at h
+        obtain ⟨q1, q2⟩ := pure_ok h
+        cases q1; subst q2
+        rw [hFdef] at h4
+        rw [hbd] at h4
+        obtain ⟨h4c, nb, hbc, hcur⟩ := convLoopBody_brk t pre L1 F hp h4
+        subst hbc
+        clear h4
+        have h4 := h4c
+        clear h4c
+        unfold loopFinish at h5
+        simp only [loopCondName] at h5
+        mbind h5 with p s4a h5a
+        obtain ⟨condOut, cns⟩ := p
+        try dsimp only at h5
+        obtain ⟨h5a', hcns⟩ := condNodes_for h5a
+        subst hcns
+        clear h5a
+        have h5a := h5a'
+        clear h5a'
+        mbind h5 with p s4b h5b
+        obtain ⟨os, ns3⟩ := p
+        try dsimp only at h5
+        mbind h5 with p s4c h5c
+        obtain ⟨inits, ns4⟩ := p
+        try dsimp only at h5
+        mbind h5 with outs s6 h5d
+        obtain ⟨q1, q2⟩ := pure_ok h5
+        cases q1; subst q2
+        obtain ⟨rfl, rfl, hinits⟩ := loopInits_val L hinv.noattr state h5c
+        -- the state variables
+        have hstate : ∀ x, x ∈ state ↔ x ∈ d ∧ (x ∈ liveInBlock body [] ∨ x ∈ lo) := by
+          intro x
+          unfold loopState at hs
+          rw [hdb] at hs
+          simp only at hs
+          cases hs
+          rw [mem_vinter, mem_vunion]
+          unfold exposedUses
+          rw [hexp]
+        have histate : i ∉ state := fun hm => hid ((hstate i).mp hm).1
+        have hstF : ∀ x, x ∈ state → x ∈ F := by
+          intro x hx
+          obtain ⟨hxd, hx'⟩ := (hstate x).mp hx
+          have hxi : x ≠ i := fun he' => hid (he' ▸ hxd)
+          rcases hx' with h' | h'
+          · exact hF.back x (hmono (fun _ hy => by cases hy) h') hxi
+          · exact hF.lo_sub x h'
+        have hFlive : ∀ y, y ∈ F → y ∈ liveInStmt (.for_ i true b body) lo := by
+          intro y hy; rw [hLin]; exact mem_vunion.mpr (Or.inl hy)
+        -- bound expression
+        have hLb : ∀ y, y ∈ usedVars b → y ∈ liveInStmt (.for_ i true b body) lo := by
+          intro y hy; rw [hLin]; exact mem_vunion.mpr (Or.inr hy)
+        have hbe' : evalExpr S (restrict ρ (liveInStmt (.for_ i true b body) lo)) b = some (.t bvv) := by
+          rw [evalExpr_restrict S ρ _ b hLb]; exact hbe
+        obtain ⟨env1, ev1, r1, x1, c1⟩ :=
+          convExpr_sim S fuel hConst _ L hinv.noattr b _ hinv.vis hinv.rel hinv.cast hbe' h1
+        have k1 := convExpr_cast L b _ h1
+        -- fresh names of the body inputs
+        obtain ⟨hcfresh, hcused, hccast⟩ := genUnique_spec h2
+        have k2 := genUnique_cast h2
+        obtain ⟨hL1eq, hpslen, hc3, k3⟩ := loopEnter_parts h3
+        simp only [loopScope, if_true] at hL1eq
+        obtain ⟨m3, f3⟩ := loopEnter_fresh h3
+        have hps_nodup : ps.Nodup := (List.nodup_cons.mp f3.1).2
+        have hiv_ps : iv ∉ ps := (List.nodup_cons.mp f3.1).1
+        have hcondIn2 : condIn ∈ s2.used := by rw [hcused]; exact List.mem_cons_self
+        have hcond_ps : condIn ∉ ps := fun hm => (f3.2 condIn (List.mem_cons_of_mem _ hm)).1 hcondIn2
+        have hiv_cond : iv ≠ condIn := fun he' => (f3.2 iv List.mem_cons_self).1 (he' ▸ hcondIn2)
+        have hbi_fresh : ∀ n, n ∈ s1.used → n ∉ iv :: condIn :: ps := by
+          intro n hn hm
+          rcases List.mem_cons.mp hm with rfl | hm
+          · exact (f3.2 _ List.mem_cons_self).1 (k2.mono _ hn)
+          · rcases List.mem_cons.mp hm with rfl | hm
+            · exact hcfresh hn
+            · exact (f3.2 n (List.mem_cons_of_mem _ hm)).1 (k2.mono _ hn)
+        have k03 : CastOK s s3 := k1.trans (k2.trans k3)
+        have cs3 : CastSub s3 := k03.sub hinv.cast
+        have hnotcast3 : ∀ r, r ∈ iv :: condIn :: ps → r ∉ s3.castable := by
+          intro r hr hc
+          rw [hc3, hccast] at hc
+          exact hbi_fresh r (c1 r hc) hr
+        -- scope at the start of the body
+        have hcondIn3 : condIn ∈ s3.used := m3 _ hcondIn2
+        have hiv3 : iv ∈ s3.used := (f3.2 iv List.mem_cons_self).2
+        have hps3 : ∀ p, p ∈ ps → p ∈ s3.used := fun p hp => (f3.2 p (List.mem_cons_of_mem _ hp)).2
+        obtain ⟨hvis1, _⟩ := loopEnter_scope (vis := s3.used) h3 (hinv.vis.mono k03.mono) hiv3 hps3
+        have hna1 : NoAttrBind L1 := by
+          rw [hL1eq]
+          exact NoAttrBind.bindVals (NoAttrBind.bindVal
+            (fun x p ty hl => hinv.noattr x p ty (by rw [← lookup_push]; exact hl)) i iv) _ _
+        have hlk_old : ∀ y, y ∉ state → y ≠ i → lookup L1 y = lookup L y := by
+          intro y hy hyi
+          rw [hL1eq, lookup_bindVals_notin _ _ _ hy, lookup_bindVar_ne hyi, lookup_push]
+        have hlk_i : lookup L1 i = some (.val iv) := by
+          rw [hL1eq, lookup_bindVals_notin _ _ _ histate, lookup_bindVar_same]
+        generalize hcn : condNode (some nb) condIn condOut = cnode at h5b
+        have hcnode : cnode = Node.op "" "Not" [some nb] [condOut] [] := by
+          rw [← hcn]; rfl
+        obtain ⟨hofresh, houused, hocast⟩ := genUnique_spec h5a
+        have k4 := ifBlock_cast L1 pre (vunion F [t]) hp h4
+        have k4a := genUnique_cast h5a
+        -- the invariant at the start of an iteration
+        have mkInv : ∀ (k : Nat) (cnd : V) (st : List V) (ρk : Store V), Along ρ ρk d i →
+            All2 (fun v x => ρk x = some (PV.t v)) st state →
+            Inv S (liveInBlock body F) (ρk.set i (.t (S.ofNat k))) L1
+              (Env.setMany env1 (iv :: condIn :: ps) (S.ofNat k :: cnd :: st)) s3 := by
+          intro k cnd st ρk hal hR
+          have henv_old : ∀ m, m ∈ s1.used →
+              (Env.setMany env1 (iv :: condIn :: ps) (S.ofNat k :: cnd :: st)) m = env1 m :=
+            fun m hm => envSetMany_frame _ _ _ m (hbi_fresh m hm)
+          have hextk : Ext env (Env.setMany env1 (iv :: condIn :: ps) (S.ofNat k :: cnd :: st)) s s3 :=
+            ⟨fun m hm => by rw [henv_old m (k1.mono m hm)]; exact x1.envSame m hm, k03.ext⟩
+          have hR' : All2 (fun v x => (ρk.set i (PV.t (S.ofNat k))) x = some (PV.t v)) st state :=
+            hR.imp (fun v x hx hv => by
+              unfold Store.set
+              simp only [show x ≠ i from fun he' => histate (he' ▸ hx), if_false]
+              exact hv)
+          refine ⟨hvis1, hna1, cs3, hal.allT.set i (S.ofNat k), ?_, ?_⟩
+          · intro y q hy
+            obtain ⟨hyL, hyq⟩ := restrict_some.mp hy
+            by_cases hyi : y = i
+            · subst hyi
+              simp only [Store.set, if_true] at hyq
+              cases hyq
+              refine ⟨iv, hlk_i, ?_, hnotcast3 iv List.mem_cons_self⟩
+              rw [envSetMany_cons, envSetMany_frame _ _ _ iv (by
+                intro hm
+                rcases List.mem_cons.mp hm with h' | h'
+                · exact hiv_cond h'
+                · exact hiv_ps h')]
+              exact Env.set_same _ _ _
+            · by_cases hys : y ∈ state
+              · obtain ⟨r, v, hl, hev, hρ, hrn⟩ := bind_set state ps st (bindVar ([] :: L) i (.val iv))
+                  ((env1.set iv (S.ofNat k)).set condIn cnd) hps_nodup hpslen hR' y hys
+                rw [hρ] at hyq
+                cases hyq
+                exact ⟨r, by rw [hL1eq]; exact hl, hev,
+                  hnotcast3 r (List.mem_cons_of_mem _ (List.mem_cons_of_mem _ hrn))⟩
+              · have hyE : y ∈ liveInBlock body [] ∨ y ∈ lo := by
+                  rcases hrel F y hyL with h' | h'
+                  · exact Or.inl h'
+                  · exact hF.sub_exposed y h'
+                have hyd : y ∉ d := fun hdm => hys ((hstate y).mpr ⟨hdm, hyE⟩)
+                have hyF : y ∈ F := hF.back y hyL hyi
+                simp only [Store.set, hyi, if_false] at hyq
+                rw [hal.frame y hyd hyi] at hyq
+                obtain ⟨m, hl, hr⟩ := hinv.rel y q (restrict_some.mpr ⟨hFlive y hyF, hyq⟩)
+                exact ⟨m, by rw [hlk_old y hys hyi]; exact hl, hr.ext (hinv.vis.lookup hl) hextk⟩
+          · intro y m hl
+            unfold Store.set
+            by_cases hyi : y = i
+            · simp [hyi]
+            · simp only [hyi, if_false]
+              by_cases hys : y ∈ state
+              · obtain ⟨v, hv⟩ := all2_mem_right hR y hys
+                rw [hv]; simp
+              · rw [hlk_old y hys hyi] at hl
+                exact hal.dom y (hinv.bound y m hl)
+        -- the iterations
+        have htF : t ∈ vunion F [t] := mem_vunion.mpr (Or.inr List.mem_cons_self)
+        have iter : ∀ (left k : Nat) (ρk ρf : Store V) (st : List V) (cnd : V), S.truth cnd = some true →
+            Along ρ ρk d i → All2 (fun v x => ρk x = some (PV.t v)) st state →
+            iterFor S i (fun r => evalBlock S fuel body r) left k ρk = some (.normal ρf) →
+            ∀ (G a : Nat), fuel ≤ G → left + 1 ≤ a →
+            ∃ stf, loopIter S (loopBodyFn S (fun e => evalNodes S G e (bn ++ cnode :: ns3)) env1
+                (iv :: condIn :: ps) (condOut :: os)) a (some left) k cnd st = some stf
+              ∧ All2 (fun v x => ρf x = some (PV.t v)) stf state ∧ Along ρ ρf d i := by
+          intro left
+          induction left with
+          | zero =>
+            intro k ρk ρf st cnd _ hal hR hit G a _ ha
+            simp only [iterFor] at hit
+            cases hit
+            cases a with
+            | zero => omega
+            | succ a' => exact ⟨st, by simp [loopIter], hR, hal⟩
+          | succ left ih =>
+            intro k ρk ρf st cnd hcnd hal hR hit G a hG ha
+            simp only [iterFor] at hit
+            cases hbk : evalBlock S fuel body (ρk.set i (.t (S.ofNat k))) with
+            | none => simp [hbk] at hit
+            | some o1 =>
+              obtain ⟨ρ1, v, bk, hpre, run1, ht, hv, ho1⟩ :=
+                brkBody_run S fuel hp (hal.allT.set i (S.ofNat k)) (hbd ▸ hbk)
+              simp only [hbk] at hit
+              have invk := mkInv k cnd st ρk hal hR
+              rw [hlive F] at invk
+              obtain ⟨envB, evB, invB, xB, mB⟩ :=
+                block_step S fuel hConst hId pre (vunion F [t]) hp invk hpre h4
+              have evBG := evalNodes_mono S bn fuel G _ _ hG evB
+              -- the break condition and the condition output
+              obtain ⟨m', hl', hr'⟩ := invB.rel t _ (restrict_some.mpr ⟨htF, ht⟩)
+              rw [current_lookup hcur] at hl'
+              cases hl'
+              obtain ⟨w, hop, hw⟩ := hNot v bk hv
+              have evC : evalNodes S G envB [cnode] = some (envB.set condOut w) := by
+                rw [hcnode]
+                exact evalNodes_op1 (vs := [some v]) (by simp [List.mapM_cons, Env.getOpt, hr'.1]) hop
+              have xC : Ext envB (envB.set condOut w) s4 s4a :=
+                ext_set_fresh _ _ hofresh (fun m _ => by rw [hocast])
+              have cs4a : CastSub s4a := k4a.sub invB.cast
+              have invC : Inv S (vunion F [t]) ρ1 L2 (envB.set condOut w) s4a :=
+                invB.ext xC k4a.mono cs4a
+              have hfO : ∀ pv, pv ∈ state → ∀ m, lookup L2 pv = some (.val m) →
+                  ∃ v, (envB.set condOut w) m = some v ∧ ρ1 pv = some (.t v) := by
+                intro pv hpv m hl
+                cases hq : ρ1 pv with
+                | none => exact absurd hq (invC.bound pv m hl)
+                | some q =>
+                  obtain ⟨v', rfl⟩ := invC.allT pv q hq
+                  obtain ⟨m2, hl2, hr2⟩ := invC.rel pv _
+                    (restrict_some.mpr ⟨mem_vunion.mpr (Or.inl (hstF pv hpv)), hq⟩)
+                  rw [hl] at hl2
+                  cases hl2
+                  exact ⟨v', hr2.1, rfl⟩
+              obtain ⟨envD, evD, xD, _, mD, aD⟩ :=
+                loopOutputs_sim S G hId L2 invC.noattr state (bn ++ [cnode]) [condOut] invC.vis hfO h5b
+              obtain ⟨rs, hrs, hallD⟩ := outs_values aD
+              have hcoD : envD condOut = some w := by
+                rw [xD.envSame condOut (by rw [houused]; exact List.mem_cons_self)]
+                exact Env.set_same _ _ _
+              have hbodyk : loopBodyFn S (fun e => evalNodes S G e (bn ++ cnode :: ns3)) env1
+                  (iv :: condIn :: ps) (condOut :: os) k cnd st = some (w, rs) := by
+                unfold loopBodyFn
+                have : evalNodes S G (Env.setMany env1 (iv :: condIn :: ps) (S.ofNat k :: cnd :: st))
+                    (bn ++ cnode :: ns3) = some envD := by
+                  have := evalNodes_seq evBG (evalNodes_seq (a := [cnode]) evC evD)
+                  simpa using this
+                simp only [this, Env.getMany, List.mapM_cons, hcoD, hrs]
+                rfl
+              have hal1 : Along ρ ρ1 d i :=
+                ⟨run1.allT,
+                 fun x hx => run1.dom x (by
+                   unfold Store.set
+                   by_cases hxi : x = i
+                   · simp [hxi]
+                   · simp only [hxi, if_false]; exact hal.dom x hx),
+                 fun x hxd hxi => by
+                   rw [run1.frame d hd x hxd]
+                   unfold Store.set
+                   simp only [hxi, if_false]
+                   exact hal.frame x hxd hxi⟩
+              cases a with
+              | zero => omega
+              | succ a' =>
+                cases bk with
+                | true =>
+                  -- `break`: the loop ends with this run's state
+                  subst ho1
+                  simp only [if_true] at hit
+                  cases hit
+                  refine ⟨rs, ?_, hallD, hal1⟩
+                  unfold loopIter
+                  simp only [hcnd, hbodyk]
+                  cases a' with
+                  | zero => omega
+                  | succ a'' =>
+                    unfold loopIter
+                    cases left with
+                    | zero => simp
+                    | succ l' => simp [hw]
+                | false =>
+                  subst ho1
+                  simp only [Bool.false_eq_true, if_false] at hit
+                  obtain ⟨stf, hit', hRf, halF⟩ :=
+                    ih (k + 1) ρ1 ρf rs w (by simpa using hw) hal1 hallD hit G a' hG (by omega)
+                  refine ⟨stf, ?_, hRf, halF⟩
+                  unfold loopIter
+                  simp only [hcnd, hbodyk]
+                  simpa using hit'
+        -- the values the loop starts with
+        have hf0 : ∀ x, x ∈ state → ∀ m, lookup L x = some (.val m) →
+            ∃ v, env1 m = some v ∧ ρ x = some (PV.t v) := by
+          intro x hx m hl
+          cases hq : ρ x with
+          | none => exact absurd hq (hinv.bound x m hl)
+          | some q =>
+            obtain ⟨v, rfl⟩ := hinv.allT x q hq
+            obtain ⟨m', hl', hr⟩ := hinv.rel x _ (restrict_some.mpr ⟨hFlive x (hstF x hx), hq⟩)
+            rw [hl] at hl'
+            cases hl'
+            exact ⟨v, by rw [x1.envSame m (hinv.vis.lookup hl)]; exact hr.1, rfl⟩
+        obtain ⟨st0, hst0, hR0⟩ := inits_values hinits hf0
+        have hal0 : Along ρ ρ d i := ⟨hinv.allT, fun _ hx => hx, fun _ _ _ => rfl⟩
+        obtain ⟨stf, hloop, hRf, halF⟩ :=
+          iter n 0 ρ ρ' st0 (S.ofBool true) hT hal0 hR0 he (max fuel (n + 1)) (max fuel (n + 1)) (Nat.le_max_left _ _)
+            (Nat.le_max_right _ _)
+        -- the Loop node
+        obtain ⟨m6, f6, l6⟩ := genUniques_fresh _ h5d
+        have hc6 := genUniques_castable _ h5d
+        have k36 : CastOK s3 s6 := k4.trans (k4a.trans ((loopOutputs_cast _ _ _ _ h5b).trans (genUniques_cast _ h5d)))
+        have k06 : CastOK s s6 := k03.trans k36
+        have hlen : stf.length = outs.length := by rw [all2_len hRf, l6]
+        have evLoop : evalNodes S (max fuel (n + 1) + 1) env1
+            [Node.loop (some ob) none inits outs (iv :: condIn :: ps) (bn ++ cnode :: ns3) (condOut :: os)]
+            = some (env1.setMany outs stf) := by
+          simp [evalNodes, evalNode, Env.getOpt, r1.1, Env.getMany, hst0, loopResult, loopTrip, hn,
+            loopCond0, hloop, hlen]
+        have hnotin : ∀ m, m ∈ s.used → m ∉ outs := fun m hm hmo =>
+          (f6.2 m hmo).1 ((k03.trans (k4.trans (k4a.trans (loopOutputs_cast _ _ _ _ h5b)))).mono m hm)
+        have xfin : Ext env (env1.setMany outs stf) s s6 :=
+          ⟨fun m hm => by rw [envSetMany_frame outs stf env1 m (hnotin m hm)]; exact x1.envSame m hm, k06.ext⟩
+        refine ⟨max fuel (n + 1) + 1, env1.setMany outs stf, ?_, ?_, xfin, hfr.1⟩
+        · have ev1' := evalNodes_mono S ns0 fuel (max fuel (n + 1) + 1) _ _
+            (Nat.le_succ_of_le (Nat.le_max_left _ _)) ev1
+          simpa using evalNodes_seq ev1' evLoop
+        · refine ⟨hsc.2.mono (fun y hy => after_in_used hfr hy), hinv.noattr.bindVals _ _,
+            k06.sub hinv.cast, halF.allT, ?_, ?_⟩
+          · intro y q hy
+            obtain ⟨hm, hq⟩ := restrict_some.mp hy
+            by_cases hys : y ∈ state
+            · obtain ⟨r, v, hl, hev, hρ, hrn⟩ := bind_set state outs stf L env1 f6.1 l6 hRf y hys
+              rw [hρ] at hq
+              cases hq
+              refine ⟨r, hl, hev, ?_⟩
+              intro hcst
+              rw [hc6] at hcst
+              exact (f6.2 r hrn).1 ((k03.trans (k4.trans (k4a.trans (loopOutputs_cast _ _ _ _ h5b)))).sub
+                hinv.cast r hcst)
+            · have hyi : y ≠ i := fun he' => hilo (he' ▸ hm)
+              have hyd : y ∉ d := fun hdm => hys ((hstate y).mpr ⟨hdm, Or.inr hm⟩)
+              rw [halF.frame y hyd hyi] at hq
+              obtain ⟨m', hl, hr⟩ := hinv.rel y q (restrict_some.mpr ⟨hFlive y (hF.lo_sub y hm), hq⟩)
+              exact ⟨m', by rw [lookup_bindVals_notin _ _ _ hys]; exact hl, hr.ext (hinv.vis.lookup hl) xfin⟩
+          · intro y m hl
+            by_cases hys : y ∈ state
+            · obtain ⟨v, hv⟩ := all2_mem_right hRf y hys
+              rw [hv]; simp
+            · rw [lookup_bindVals_notin _ _ _ hys] at hl
+              exact halF.dom y (hinv.bound y m hl)
+
+/-! ## `while t:` over a body of the `if` fragment -/
+
+/-- What is needed of the live-out set `F` the body of `while t: body` is translated with (`F` is also the
+live-in of the loop). -/
+structure WhileLive (t : Name) (body : List Stmt) (lo F : VSet) : Prop where
+  lo_sub : ∀ y, y ∈ lo → y ∈ F
+  cond_in : t ∈ F
+  back : ∀ y, y ∈ liveInBlock body F → y ∈ F
+  sub_exposed : ∀ y, y ∈ F → y ∈ liveInBlock body [] ∨ y ∈ lo ∨ y = t
+
+theorem whileLive_of_stable {t : Name} {body : List Stmt} {lo : VSet}
+    (hrel : ∀ (X : VSet) (y : Name), y ∈ liveInBlock body X → y ∈ liveInBlock body [] ∨ y ∈ X)
+    (hst : stableStmt (.while_ (.var t) body) lo = true) :
+    WhileLive t body lo (loopBodyLo (.while_ (.var t) body) lo) := by
+  unfold stableStmt at hst
+  simp only [Bool.and_eq_true] at hst
+  obtain ⟨⟨⟨h1, h2⟩, h3⟩, _⟩ := hst
+  refine ⟨vsubset_mem h1, vsubset_mem h2 t (by simp [usedVars]), vsubset_mem h3, ?_⟩
+  simp only [loopBodyLo]
+  apply fixIter_inv (fun X => ∀ y, y ∈ X → y ∈ liveInBlock body [] ∨ y ∈ lo ∨ y = t)
+  · intro X hX y hy
+    rcases mem_vunion.mp hy with h | h
+    · rcases mem_vunion.mp h with h | h
+      · rcases hrel X y h with h' | h'
+        · exact Or.inl h'
+        · exact hX y h'
+      · simp only [usedVars, List.mem_singleton] at h
+        exact Or.inr (Or.inr h)
+    · exact Or.inr (Or.inl h)
+  · intro y hy
+    rcases mem_vunion.mp hy with h | h
+    · exact Or.inr (Or.inl h)
+    · simp only [usedVars, List.mem_singleton] at h
+      exact Or.inr (Or.inr h)
+
+/-- What stays true of the Python store over the iterations of a `while` loop. -/
+structure AlongW (ρ ρk : Store V) (d : VSet) : Prop where
+  allT : AllT ρk
+  dom : ∀ x, ρ x ≠ none → ρk x ≠ none
+  frame : ∀ x, x ∉ d → ρk x = ρ x
+
+/-- The `Loop` node of a `while t:` loop simulates Python's `while`, given the pieces of its translation
+(`convStmt` unfolded), with the iteration-number input of the body bound to no Python name. -/
+theorem while_core (S : Sem V) (fuel : Nat) (hConst : ∀ l, ∃ c, constOf S l = some c)
+    (hId : ∀ v, S.op "" "Identity" [some v] [] = some [v])
+    {t : Name} {body : List Stmt} {lo d F state : VSet} {ρ ρ' : Store V} {L L1 L2 L' : Locals} {env : Env V}
+    {s s2 s2' s3 s4 s' : St} {condIn oc iv : Name} {ps : List Name} {ns0 bn nl : List Node} {bc : Option Name}
+    {ilName : Name}
+    (hbody : ifBlock body = true) (hd : assignedBlock body = some d) (hs : loopState body lo = some state)
+    (hW : WhileLive t body lo F)
+    (hside : t ∈ state ∨ t ∉ liveInBlock body F)
+    (hinv : Inv S F ρ L env s)
+    (he : iterWhile (fun r => match r t with | some v => truthPV S v | none => none)
+      (fun r => evalBlock S fuel body r) fuel ρ = some (.normal ρ'))
+    (h2 : genUnique t s = .ok (condIn, s2))
+    (h1 : pyVar L t s2 = .ok ((oc, ns0), s2'))
+    (h3 : loopEnter L ilName false state s2' = .ok ((L1, iv, ps), s3))
+    (h4 : convLoopBody L1 body F s3 = .ok ((L2, bn, bc), s4))
+    (h5 : loopFinish L L2 state none (some oc) condIn iv ps (some t) bn bc s4 = .ok ((L', nl), s'))
+    (hmono : Mono s s') (hvisF : VisOK s'.used L') :
+    ∃ G env', evalNodes S G env (ns0 ++ nl) = some env' ∧ Inv S lo ρ' L' env' s' ∧ Ext env env' s s' := by
+  -- the condition value before the loop
+  have htF := hW.cond_in
+  obtain ⟨hcfresh, hcused, hccast⟩ := genUnique_spec h2
+  have k2 := genUnique_cast h2
+  unfold pyVar at h1
+  cases hlt : lookup L t with
+  | none => simp only [hlt] at h1; exact (failM_ok h1).elim
+  | some bnd =>
+    cases bnd with
+    | attr p ty => exact absurd hlt (hinv.noattr t p ty)
+    | val n0 =>
+      simp only [hlt] at h1
+      obtain ⟨rfl, rfl, rfl⟩ := toOnnxVar_val h1
+      clear h1
+      have hρt0 : ρ t ≠ none := hinv.bound t oc hlt
+      cases hρt : ρ t with
+      | none => exact absurd hρt hρt0
+      | some q0 =>
+        obtain ⟨v0, rfl⟩ := hinv.allT t q0 hρt
+        obtain ⟨m0, hl0, hr0⟩ := hinv.rel t _ (restrict_some.mpr ⟨htF, hρt⟩)
+        rw [hlt] at hl0
+        cases hl0
+        -- the body
+        obtain ⟨h4c, hbc⟩ := convLoopBody_ifBlock body L1 F hbody h4
+        subst hbc
+        clear h4
+        have h4 := h4c
+        clear h4c
+        unfold loopFinish at h5
+        cases hcn : loopCondName L2 (some t) condIn with
+        | none => simp only [hcn] at h5; exact (failM_ok h5).elim
+        | some n2 =>
+          simp only [hcn] at h5
+          have hcur : currentScopeFind L2 t = some (.val n2) := by
+            unfold loopCondName at hcn
+            simp only at hcn
+            cases hf : currentScopeFind L2 t with
+            | none => simp only [hf] at hcn; cases hcn
+            | some b =>
+              cases b with
+              | val n => simp only [hf] at hcn; cases hcn; rfl
+              | attr p ty => simp only [hf] at hcn; cases hcn
+          mbind h5 with p s4a h5a
+          obtain ⟨condOut, cns⟩ := p
+          try dsimp only at h5
+          have hcns : genUnique "cond_out" s4 = .ok (condOut, s4a) ∧ cns = [condNode none n2 condOut] := by
+            unfold condNodes at h5a
+            simp only at h5a
+            mbind h5a with c sx hx
+            obtain ⟨e1, e2⟩ := pure_ok h5a
+            cases e1; subst e2
+            exact ⟨hx, rfl⟩
+          obtain ⟨h5a', hcns⟩ := hcns
+          subst hcns
+          clear h5a
+          have h5a := h5a'
+          clear h5a'
+          mbind h5 with p s4b h5b
+          obtain ⟨os, ns3⟩ := p
+          try dsimp only at h5
+          mbind h5 with p s4c h5c
+          obtain ⟨inits, ns4⟩ := p
+          try dsimp only at h5
+          mbind h5 with outs s6 h5d
+          obtain ⟨q1, q2⟩ := pure_ok h5
+          cases q1; subst q2
+          obtain ⟨rfl, rfl, hinits⟩ := loopInits_val L hinv.noattr state h5c
+          -- the state variables
+          have hstate : ∀ x, x ∈ state ↔ x ∈ d ∧ (x ∈ liveInBlock body [] ∨ x ∈ lo) := by
+            intro x
+            unfold loopState at hs
+            rw [hd] at hs
+            simp only at hs
+            cases hs
+            rw [mem_vinter, mem_vunion]
+            unfold exposedUses
+            rw [exposed_eq_live_block body [] hbody]
+          have hstF : ∀ x, x ∈ state → x ∈ F := by
+            intro x hx
+            obtain ⟨_, hx'⟩ := (hstate x).mp hx
+            rcases hx' with h' | h'
+            · exact hW.back x (live_mono_block hbody (fun _ hy => by cases hy) h')
+            · exact hW.lo_sub x h'
+          -- fresh names of the body inputs
+          obtain ⟨hL1eq, hpslen, hc3, k3⟩ := loopEnter_parts h3
+          simp only [loopScope, Bool.false_eq_true, if_false] at hL1eq
+          obtain ⟨m3, f3⟩ := loopEnter_fresh h3
+          have hps_nodup : ps.Nodup := (List.nodup_cons.mp f3.1).2
+          have hiv_ps : iv ∉ ps := (List.nodup_cons.mp f3.1).1
+          have hcondIn2 : condIn ∈ s2'.used := by rw [hcused]; exact List.mem_cons_self
+          have hcond_ps : condIn ∉ ps := fun hm => (f3.2 condIn (List.mem_cons_of_mem _ hm)).1 hcondIn2
+          have hiv_cond : iv ≠ condIn := fun he' => (f3.2 iv List.mem_cons_self).1 (he' ▸ hcondIn2)
+          have hbi_fresh : ∀ n, n ∈ s.used → n ∉ iv :: condIn :: ps := by
+            intro n hn hm
+            rcases List.mem_cons.mp hm with rfl | hm
+            · exact (f3.2 _ List.mem_cons_self).1 (k2.mono _ hn)
+            · rcases List.mem_cons.mp hm with rfl | hm
+              · exact hcfresh hn
+              · exact (f3.2 n (List.mem_cons_of_mem _ hm)).1 (k2.mono _ hn)
+          have k03 : CastOK s s3 := k2.trans k3
+          have cs3 : CastSub s3 := k03.sub hinv.cast
+          have hnotcast3 : ∀ r, r ∈ iv :: condIn :: ps → r ∉ s3.castable := by
+            intro r hr hc
+            rw [hc3, hccast] at hc
+            exact hbi_fresh r (hinv.cast r hc) hr
+          have hcondIn3 : condIn ∈ s3.used := m3 _ hcondIn2
+          have hiv3 : iv ∈ s3.used := (f3.2 iv List.mem_cons_self).2
+          have hps3 : ∀ p, p ∈ ps → p ∈ s3.used := fun p hp => (f3.2 p (List.mem_cons_of_mem _ hp)).2
+          obtain ⟨hvis1, _⟩ := loopEnter_scope (vis := s3.used) h3 (hinv.vis.mono k03.mono) hiv3 hps3
+          have hna1 : NoAttrBind L1 := by
+            rw [hL1eq]
+            exact NoAttrBind.bindVals
+              (fun x p ty hl => hinv.noattr x p ty (by rw [← lookup_push]; exact hl)) _ _
+          have hlk_old : ∀ y, y ∉ state → lookup L1 y = lookup L y := by
+            intro y hy
+            rw [hL1eq, lookup_bindVals_notin _ _ _ hy, lookup_push]
+          generalize hcnd : condNode none n2 condOut = cnode at h5b
+          have hcnode : cnode = Node.op "" "Identity" [some n2] [condOut] [] := by
+            rw [← hcnd]; rfl
+          obtain ⟨hofresh, houused, hocast⟩ := genUnique_spec h5a
+          have k4 := ifBlock_cast L1 body F hbody h4
+          have k4a := genUnique_cast h5a
+          -- the invariant at the start of an iteration
+          have mkInv : ∀ (k : Nat) (cnd : V) (st : List V) (ρk : Store V), AlongW ρ ρk d →
+              All2 (fun v x => ρk x = some (PV.t v)) st state →
+              Inv S (liveInBlock body F) ρk L1
+                (Env.setMany env (iv :: condIn :: ps) (S.ofNat k :: cnd :: st)) s3 := by
+            intro k cnd st ρk hal hR
+            have henv_old : ∀ m, m ∈ s.used →
+                (Env.setMany env (iv :: condIn :: ps) (S.ofNat k :: cnd :: st)) m = env m :=
+              fun m hm => envSetMany_frame _ _ _ m (hbi_fresh m hm)
+            have hextk : Ext env (Env.setMany env (iv :: condIn :: ps) (S.ofNat k :: cnd :: st)) s s3 :=
+              ⟨fun m hm => henv_old m hm, k03.ext⟩
+            refine ⟨hvis1, hna1, cs3, hal.allT, ?_, ?_⟩
+            · intro y q hy
+              obtain ⟨hyL, hyq⟩ := restrict_some.mp hy
+              by_cases hys : y ∈ state
+              · obtain ⟨r, v, hl, hev, hρ, hrn⟩ := bind_set state ps st ([] :: L)
+                  ((env.set iv (S.ofNat k)).set condIn cnd) hps_nodup hpslen hR y hys
+                rw [hρ] at hyq
+                cases hyq
+                exact ⟨r, by rw [hL1eq]; exact hl, hev,
+                  hnotcast3 r (List.mem_cons_of_mem _ (List.mem_cons_of_mem _ hrn))⟩
+              · have hyF : y ∈ F := hW.back y hyL
+                have hyd : y ∉ d := by
+                  intro hdm
+                  rcases live_rel_block body (A := []) (X := F) hbody (fun z hz => Or.inr hz) hyL with h' | _
+                  · exact hys ((hstate y).mpr ⟨hdm, Or.inl h'⟩)
+                  · rcases hW.sub_exposed y hyF with h' | h' | h'
+                    · exact hys ((hstate y).mpr ⟨hdm, Or.inl h'⟩)
+                    · exact hys ((hstate y).mpr ⟨hdm, Or.inr h'⟩)
+                    · subst h'
+                      rcases hside with h'' | h''
+                      · exact hys h''
+                      · exact h'' hyL
+                rw [hal.frame y hyd] at hyq
+                obtain ⟨m, hl, hr⟩ := hinv.rel y q (restrict_some.mpr ⟨hyF, hyq⟩)
+                exact ⟨m, by rw [hlk_old y hys]; exact hl, hr.ext (hinv.vis.lookup hl) hextk⟩
+            · intro y m hl
+              by_cases hys : y ∈ state
+              · obtain ⟨v, hv⟩ := all2_mem_right hR y hys
+                rw [hv]; simp
+              · rw [hlk_old y hys] at hl
+                exact hal.dom y (hinv.bound y m hl)
+          -- the iterations
+          have iter : ∀ (fl k : Nat) (ρk ρf : Store V) (st : List V) (cnd : V), ρk t = some (PV.t cnd) →
+              AlongW ρ ρk d → All2 (fun v x => ρk x = some (PV.t v)) st state →
+              iterWhile (fun r => match r t with | some v => truthPV S v | none => none)
+                (fun r => evalBlock S fuel body r) fl ρk = some (.normal ρf) →
+              ∀ (G a : Nat), fuel ≤ G → fl + 1 ≤ a →
+              ∃ stf, loopIter S (loopBodyFn S (fun e => evalNodes S G e (bn ++ ([cnode] ++ ns3))) env
+                  (iv :: condIn :: ps) (condOut :: os)) a none k cnd st = some stf
+                ∧ All2 (fun v x => ρf x = some (PV.t v)) stf state ∧ AlongW ρ ρf d := by
+            intro fl
+            induction fl with
+            | zero => intro k ρk ρf st cnd _ _ _ hit; simp [iterWhile] at hit
+            | succ fl ih =>
+              intro k ρk ρf st cnd hcv hal hR hit G a hG ha
+              simp only [iterWhile, hcv, truthPV] at hit
+              cases a with
+              | zero => omega
+              | succ a' =>
+                cases htr : S.truth cnd with
+                | none => simp [htr] at hit
+                | some bcur =>
+                  cases bcur with
+                  | false =>
+                    simp only [htr] at hit
+                    cases hit
+                    exact ⟨st, by simp [loopIter, htr], hR, hal⟩
+                  | true =>
+                    simp only [htr] at hit
+                    cases hbk : evalBlock S fuel body ρk with
+                    | none => simp [hbk] at hit
+                    | some o1 =>
+                      obtain ⟨ρ1, rfl, run1⟩ := ifBlock_run S fuel body hbody hal.allT hbk
+                      simp only [hbk] at hit
+                      have invk := mkInv k cnd st ρk hal hR
+                      obtain ⟨envB, evB, invB, xB, mB⟩ := block_step S fuel hConst hId body F hbody invk hbk h4
+                      have evBG := evalNodes_mono S bn fuel G _ _ hG evB
+                      -- the re-computed condition
+                      have hl2 := current_lookup hcur
+                      have hρ1t : ρ1 t ≠ none := invB.bound t n2 hl2
+                      cases hq1 : ρ1 t with
+                      | none => exact absurd hq1 hρ1t
+                      | some q1 =>
+                        obtain ⟨v1, rfl⟩ := invB.allT t q1 hq1
+                        obtain ⟨m', hl', hr'⟩ := invB.rel t _ (restrict_some.mpr ⟨htF, hq1⟩)
+                        rw [hl2] at hl'
+                        cases hl'
+                        have evC : evalNodes S G envB [cnode] = some (envB.set condOut v1) := by
+                          rw [hcnode]
+                          exact evalNodes_op1 (vs := [some v1])
+                            (by simp [List.mapM_cons, Env.getOpt, hr'.1]) (hId _)
+                        have xC : Ext envB (envB.set condOut v1) s4 s4a :=
+                          ext_set_fresh _ _ hofresh (fun m _ => by rw [hocast])
+                        have cs4a : CastSub s4a := k4a.sub invB.cast
+                        have invC : Inv S F ρ1 L2 (envB.set condOut v1) s4a :=
+                          invB.ext xC k4a.mono cs4a
+                        have hfO : ∀ pv, pv ∈ state → ∀ m, lookup L2 pv = some (.val m) →
+                            ∃ v, (envB.set condOut v1) m = some v ∧ ρ1 pv = some (.t v) := by
+                          intro pv hpv m hl
+                          cases hq : ρ1 pv with
+                          | none => exact absurd hq (invC.bound pv m hl)
+                          | some q =>
+                            obtain ⟨v', rfl⟩ := invC.allT pv q hq
+                            obtain ⟨m2, hlm, hrm⟩ := invC.rel pv _ (restrict_some.mpr ⟨hstF pv hpv, hq⟩)
+                            rw [hl] at hlm
+                            cases hlm
+                            exact ⟨v', hrm.1, rfl⟩
+                        obtain ⟨envD, evD, xD, _, mD, aD⟩ :=
+                          loopOutputs_sim S G hId L2 invC.noattr state (bn ++ [cnode]) [condOut] invC.vis hfO h5b
+                        obtain ⟨rs, hrs, hallD⟩ := outs_values aD
+                        have hcoD : envD condOut = some v1 := by
+                          rw [xD.envSame condOut (by rw [houused]; exact List.mem_cons_self)]
+                          exact Env.set_same _ _ _
+                        have hbodyk : loopBodyFn S (fun e => evalNodes S G e (bn ++ ([cnode] ++ ns3))) env
+                            (iv :: condIn :: ps) (condOut :: os) k cnd st = some (v1, rs) := by
+                          unfold loopBodyFn
+                          have : evalNodes S G (Env.setMany env (iv :: condIn :: ps) (S.ofNat k :: cnd :: st))
+                              (bn ++ ([cnode] ++ ns3)) = some envD :=
+                            evalNodes_seq evBG (evalNodes_seq (a := [cnode]) evC evD)
+                          simp only [this, Env.getMany, List.mapM_cons, hcoD, hrs]
+                          rfl
+                        have hal1 : AlongW ρ ρ1 d :=
+                          ⟨run1.allT, fun x hx => run1.dom x (hal.dom x hx),
+                           fun x hxd => by rw [run1.frame d hd x hxd]; exact hal.frame x hxd⟩
+                        obtain ⟨stf, hit', hRf, halF⟩ :=
+                          ih (k + 1) ρ1 ρf rs v1 hq1 hal1 hallD hit G a' hG (by omega)
+                        refine ⟨stf, ?_, hRf, halF⟩
+                        unfold loopIter
+                        simp only [htr, hbodyk]
+                        simpa using hit'
+          -- the values the loop starts with
+          have hf0 : ∀ x, x ∈ state → ∀ m, lookup L x = some (.val m) →
+              ∃ v, env m = some v ∧ ρ x = some (PV.t v) := by
+            intro x hx m hl
+            cases hq : ρ x with
+            | none => exact absurd hq (hinv.bound x m hl)
+            | some q =>
+              obtain ⟨v, rfl⟩ := hinv.allT x q hq
+              obtain ⟨m', hl', hr⟩ := hinv.rel x _ (restrict_some.mpr ⟨hstF x hx, hq⟩)
+              rw [hl] at hl'
+              cases hl'
+              exact ⟨v, hr.1, rfl⟩
+          obtain ⟨st0, hst0, hR0⟩ := inits_values hinits hf0
+          have hal0 : AlongW ρ ρ d := ⟨hinv.allT, fun _ hx => hx, fun _ _ => rfl⟩
+          obtain ⟨stf, hloop, hRf, halF⟩ :=
+            iter fuel 0 ρ ρ' st0 v0 hρt hal0 hR0 he (fuel + 1) (fuel + 1) (Nat.le_succ _) (Nat.le_refl _)
+          -- the Loop node
+          obtain ⟨m6, f6, l6⟩ := genUniques_fresh _ h5d
+          have hc6 := genUniques_castable _ h5d
+          have k36 : CastOK s3 s6 :=
+            k4.trans (k4a.trans ((loopOutputs_cast _ _ _ _ h5b).trans (genUniques_cast _ h5d)))
+          have k06 : CastOK s s6 := k03.trans k36
+          have hlen : stf.length = outs.length := by rw [all2_len hRf, l6]
+          have evLoop : evalNodes S (fuel + 1 + 1) env
+              [Node.loop none (some oc) inits outs (iv :: condIn :: ps) (bn ++ ([cnode] ++ ns3)) (condOut :: os)]
+              = some (env.setMany outs stf) := by
+            simp only [List.singleton_append] at hloop
+            simp [evalNodes, evalNode, Env.getOpt, hr0.1, Env.getMany, hst0, loopResult, loopTrip,
+              loopCond0, hloop, hlen]
+          have hnotin : ∀ m, m ∈ s.used → m ∉ outs := fun m hm hmo =>
+            (f6.2 m hmo).1 ((k03.trans (k4.trans (k4a.trans (loopOutputs_cast _ _ _ _ h5b)))).mono m hm)
+          have xfin : Ext env (env.setMany outs stf) s s6 :=
+            ⟨fun m hm => envSetMany_frame outs stf env m (hnotin m hm), k06.ext⟩
+          refine ⟨fuel + 1 + 1, env.setMany outs stf, ?_, ?_, xfin⟩
+          · simpa using evLoop
+          · refine ⟨hvisF, hinv.noattr.bindVals _ _, k06.sub hinv.cast, halF.allT, ?_, ?_⟩
+            · intro y q hy
+              obtain ⟨hm, hq⟩ := restrict_some.mp hy
+              by_cases hys : y ∈ state
+              · obtain ⟨r, v, hl, hev, hρ, hrn⟩ := bind_set state outs stf L env f6.1 l6 hRf y hys
+                rw [hρ] at hq
+                cases hq
+                refine ⟨r, hl, hev, ?_⟩
+                intro hcst
+                rw [hc6] at hcst
+                exact (f6.2 r hrn).1 ((k03.trans (k4.trans (k4a.trans (loopOutputs_cast _ _ _ _ h5b)))).sub
+                  hinv.cast r hcst)
+              · have hyd : y ∉ d := fun hdm => hys ((hstate y).mpr ⟨hdm, Or.inr hm⟩)
+                rw [halF.frame y hyd] at hq
+                obtain ⟨m', hl, hr⟩ := hinv.rel y q (restrict_some.mpr ⟨hW.lo_sub y hm, hq⟩)
+                exact ⟨m', by rw [lookup_bindVals_notin _ _ _ hys]; exact hl, hr.ext (hinv.vis.lookup hl) xfin⟩
+            · intro y m hl
+              by_cases hys : y ∈ state
+              · obtain ⟨v, hv⟩ := all2_mem_right hRf y hys
+                rw [hv]; simp
+              · rw [lookup_bindVals_notin _ _ _ hys] at hl
+                exact halF.dom y (hinv.bound y m hl)
+
+/-- The same for a body `pre; if b: break`: `cond_out = And(t, Not(b))` (since ddfea30). -/
+theorem whileB_core (S : Sem V) (fuel : Nat) (hConst : ∀ l, ∃ c, constOf S l = some c)
+    (hId : ∀ v, S.op "" "Identity" [some v] [] = some [v])
+    (hNot : ∀ v bk, S.truth v = some bk → ∃ w, S.op "" "Not" [some v] [] = some [w] ∧ S.truth w = some (!bk))
+    (hAnd : ∀ x y yb, S.truth y = some yb → ∃ w, S.op "" "And" [some x, some y] [] = some [w] ∧
+      (yb = false → S.truth w = some false) ∧ (yb = true → S.truth w = S.truth x))
+    {t b : Name} {pre body : List Stmt} (hbd : body = pre ++ brkTail b) {lo d F state : VSet} {ρ ρ' : Store V} {L L1 L2 L' : Locals} {env : Env V}
+    {s s2 s2' s3 s4 s' : St} {condIn oc iv : Name} {ps : List Name} {ns0 bn nl : List Node} {bc : Option Name}
+    {ilName : Name}
+    (hp : ifBlock pre = true) (hd : assignedBlock pre = some d) (hs : loopState body lo = some state)
+    (hW : WhileLive t body lo F)
+    (hside : t ∈ state ∨ t ∉ liveInBlock body F)
+    (hinv : Inv S F ρ L env s)
+    (he : iterWhile (fun r => match r t with | some v => truthPV S v | none => none)
+      (fun r => evalBlock S fuel body r) fuel ρ = some (.normal ρ'))
+    (h2 : genUnique t s = .ok (condIn, s2))
+    (h1 : pyVar L t s2 = .ok ((oc, ns0), s2'))
+    (h3 : loopEnter L ilName false state s2' = .ok ((L1, iv, ps), s3))
+    (h4 : convLoopBody L1 body F s3 = .ok ((L2, bn, bc), s4))
+    (h5 : loopFinish L L2 state none (some oc) condIn iv ps (some t) bn bc s4 = .ok ((L', nl), s'))
+    (hmono : Mono s s') (hvisF : VisOK s'.used L') :
+    ∃ G env', evalNodes S G env (ns0 ++ nl) = some env' ∧ Inv S lo ρ' L' env' s' ∧ Ext env env' s s' := by
+  have hlive : ∀ X, liveInBlock body X = liveInBlock pre (vunion X [b]) := by
+    intro X; rw [hbd]; exact live_brk pre b X
+  have hexp : exposedBlock body [] = liveInBlock body [] := by rw [hbd]; exact exposed_brk b hp
+  have hdb : assignedBlock body = some d := by rw [hbd, assigned_brk]; exact hd
+  have hrel : ∀ (X : VSet) (y : Name), y ∈ liveInBlock body X → y ∈ liveInBlock body [] ∨ y ∈ X := by
+    intro X y hy; rw [hbd] at hy ⊢; exact live_rel_brk hp hy
+  have hmono' : ∀ {Z A : VSet} {y : Name}, (∀ x, x ∈ Z → x ∈ A) → y ∈ liveInBlock body Z →
+      y ∈ liveInBlock body A := by
+    intro Z A y hz hy; rw [hbd] at hy ⊢; exact live_mono_brk hp hz hy
+  -- the condition value before the loop
+  have htF := hW.cond_in
+  obtain ⟨hcfresh, hcused, hccast⟩ := genUnique_spec h2
+  have k2 := genUnique_cast h2
+  unfold pyVar at h1
+  cases hlt : lookup L t with
+  | none => simp only [hlt] at h1; exact (failM_ok h1).elim
+  | some bnd =>
+    cases bnd with
+    | attr p ty => exact absurd hlt (hinv.noattr t p ty)
+    | val n0 =>
+      simp only [hlt] at h1
+      obtain ⟨rfl, rfl, rfl⟩ := toOnnxVar_val h1
+      clear h1
+      have hρt0 : ρ t ≠ none := hinv.bound t oc hlt
+      cases hρt : ρ t with
+      | none => exact absurd hρt hρt0
+      | some q0 =>
+        obtain ⟨v0, rfl⟩ := hinv.allT t q0 hρt
+        obtain ⟨m0, hl0, hr0⟩ := hinv.rel t _ (restrict_some.mpr ⟨htF, hρt⟩)
+        rw [hlt] at hl0
+        cases hl0
+        -- the body
+        rw [hbd] at h4
+        obtain ⟨h4c, nb, hbc, hcurb⟩ := convLoopBody_brk b pre L1 F hp h4
+        subst hbc
+        clear h4
+        have h4 := h4c
+        clear h4c
+        unfold loopFinish at h5
+        cases hcn : loopCondName L2 (some t) condIn with
+        | none => simp only [hcn] at h5; exact (failM_ok h5).elim
+        | some n2 =>
+          simp only [hcn] at h5
+          have hcur : currentScopeFind L2 t = some (.val n2) := by
+            unfold loopCondName at hcn
+            simp only at hcn
+            cases hf : currentScopeFind L2 t with
+            | none => simp only [hf] at hcn; cases hcn
+            | some b =>
+              cases b with
+              | val n => simp only [hf] at hcn; cases hcn; rfl
+              | attr p ty => simp only [hf] at hcn; cases hcn
+          mbind h5 with p s4a h5a
+          obtain ⟨condOut, cns⟩ := p
+          try dsimp only at h5
+          have hcns : ∃ notb s4n, genUnique "not_break" s4 = .ok (notb, s4n) ∧
+              genUnique "cond_out" s4n = .ok (condOut, s4a) ∧
+              cns = [Node.op "" "Not" [some nb] [notb] [], Node.op "" "And" [some n2, some notb] [condOut] []] := by
+            unfold condNodes at h5a
+            simp only at h5a
+            mbind h5a with c1 sx hx
+            mbind h5a with c2 sy hy
+            obtain ⟨e1, e2⟩ := pure_ok h5a
+            cases e1; subst e2
+            exact ⟨c1, sx, hx, hy, rfl⟩
+          obtain ⟨notb, s4n, h5n, h5a', hcns⟩ := hcns
+          subst hcns
+          clear h5a
+          have h5a := h5a'
+          clear h5a'
+          mbind h5 with p s4b h5b
+          obtain ⟨os, ns3⟩ := p
+          try dsimp only at h5
+          mbind h5 with p s4c h5c
+          obtain ⟨inits, ns4⟩ := p
+          try dsimp only at h5
+          mbind h5 with outs s6 h5d
+          obtain ⟨q1, q2⟩ := pure_ok h5
+          cases q1; subst q2
+          obtain ⟨rfl, rfl, hinits⟩ := loopInits_val L hinv.noattr state h5c
+          -- the state variables
+          have hstate : ∀ x, x ∈ state ↔ x ∈ d ∧ (x ∈ liveInBlock body [] ∨ x ∈ lo) := by
+            intro x
+            unfold loopState at hs
+            rw [hdb] at hs
+            simp only at hs
+            cases hs
+            rw [mem_vinter, mem_vunion]
+            unfold exposedUses
+            rw [hexp]
+          have hstF : ∀ x, x ∈ state → x ∈ F := by
+            intro x hx
+            obtain ⟨_, hx'⟩ := (hstate x).mp hx
+            rcases hx' with h' | h'
+            · exact hW.back x (hmono' (fun _ hy => by cases hy) h')
+            · exact hW.lo_sub x h'
+          -- fresh names of the body inputs
+          obtain ⟨hL1eq, hpslen, hc3, k3⟩ := loopEnter_parts h3
+          simp only [loopScope, Bool.false_eq_true, if_false] at hL1eq
+          obtain ⟨m3, f3⟩ := loopEnter_fresh h3
+          have hps_nodup : ps.Nodup := (List.nodup_cons.mp f3.1).2
+          have hiv_ps : iv ∉ ps := (List.nodup_cons.mp f3.1).1
+          have hcondIn2 : condIn ∈ s2'.used := by rw [hcused]; exact List.mem_cons_self
+          have hcond_ps : condIn ∉ ps := fun hm => (f3.2 condIn (List.mem_cons_of_mem _ hm)).1 hcondIn2
+          have hiv_cond : iv ≠ condIn := fun he' => (f3.2 iv List.mem_cons_self).1 (he' ▸ hcondIn2)
+          have hbi_fresh : ∀ n, n ∈ s.used → n ∉ iv :: condIn :: ps := by
+            intro n hn hm
+            rcases List.mem_cons.mp hm with rfl | hm
+            · exact (f3.2 _ List.mem_cons_self).1 (k2.mono _ hn)
+            · rcases List.mem_cons.mp hm with rfl | hm
+              · exact hcfresh hn
+              · exact (f3.2 n (List.mem_cons_of_mem _ hm)).1 (k2.mono _ hn)
+          have k03 : CastOK s s3 := k2.trans k3
+          have cs3 : CastSub s3 := k03.sub hinv.cast
+          have hnotcast3 : ∀ r, r ∈ iv :: condIn :: ps → r ∉ s3.castable := by
+            intro r hr hc
+            rw [hc3, hccast] at hc
+            exact hbi_fresh r (hinv.cast r hc) hr
+          have hcondIn3 : condIn ∈ s3.used := m3 _ hcondIn2
+          have hiv3 : iv ∈ s3.used := (f3.2 iv List.mem_cons_self).2
+          have hps3 : ∀ p, p ∈ ps → p ∈ s3.used := fun p hp => (f3.2 p (List.mem_cons_of_mem _ hp)).2
+          obtain ⟨hvis1, _⟩ := loopEnter_scope (vis := s3.used) h3 (hinv.vis.mono k03.mono) hiv3 hps3
+          have hna1 : NoAttrBind L1 := by
+            rw [hL1eq]
+            exact NoAttrBind.bindVals
+              (fun x p ty hl => hinv.noattr x p ty (by rw [← lookup_push]; exact hl)) _ _
+          have hlk_old : ∀ y, y ∉ state → lookup L1 y = lookup L y := by
+            intro y hy
+            rw [hL1eq, lookup_bindVals_notin _ _ _ hy, lookup_push]
+          obtain ⟨hnfresh, hnused, hncast⟩ := genUnique_spec h5n
+          obtain ⟨hofresh, houused, hocast⟩ := genUnique_spec h5a
+          have k4 := ifBlock_cast L1 pre (vunion F [b]) hp h4
+          have k4n := genUnique_cast h5n
+          have k4a := k4n.trans (genUnique_cast h5a)
+          have hbF : b ∈ vunion F [b] := mem_vunion.mpr (Or.inr List.mem_cons_self)
+          have htFb : t ∈ vunion F [b] := mem_vunion.mpr (Or.inl htF)
+          -- the invariant at the start of an iteration
+          have mkInv : ∀ (k : Nat) (cnd : V) (st : List V) (ρk : Store V), AlongW ρ ρk d →
+              All2 (fun v x => ρk x = some (PV.t v)) st state →
+              Inv S (liveInBlock body F) ρk L1
+                (Env.setMany env (iv :: condIn :: ps) (S.ofNat k :: cnd :: st)) s3 := by
+            intro k cnd st ρk hal hR
+            have henv_old : ∀ m, m ∈ s.used →
+                (Env.setMany env (iv :: condIn :: ps) (S.ofNat k :: cnd :: st)) m = env m :=
+              fun m hm => envSetMany_frame _ _ _ m (hbi_fresh m hm)
+            have hextk : Ext env (Env.setMany env (iv :: condIn :: ps) (S.ofNat k :: cnd :: st)) s s3 :=
+              ⟨fun m hm => henv_old m hm, k03.ext⟩
+            refine ⟨hvis1, hna1, cs3, hal.allT, ?_, ?_⟩
+            · intro y q hy
+              obtain ⟨hyL, hyq⟩ := restrict_some.mp hy
+              by_cases hys : y ∈ state
+              · obtain ⟨r, v, hl, hev, hρ, hrn⟩ := bind_set state ps st ([] :: L)
+                  ((env.set iv (S.ofNat k)).set condIn cnd) hps_nodup hpslen hR y hys
+                rw [hρ] at hyq
+                cases hyq
+                exact ⟨r, by rw [hL1eq]; exact hl, hev,
+                  hnotcast3 r (List.mem_cons_of_mem _ (List.mem_cons_of_mem _ hrn))⟩
+              · have hyF : y ∈ F := hW.back y hyL
+                have hyd : y ∉ d := by
+                  intro hdm
+                  rcases hrel F y hyL with h' | _
+                  · exact hys ((hstate y).mpr ⟨hdm, Or.inl h'⟩)
+                  · rcases hW.sub_exposed y hyF with h' | h' | h'
+                    · exact hys ((hstate y).mpr ⟨hdm, Or.inl h'⟩)
+                    · exact hys ((hstate y).mpr ⟨hdm, Or.inr h'⟩)
+                    · subst h'
+                      rcases hside with h'' | h''
+                      · exact hys h''
+                      · exact h'' hyL
+                rw [hal.frame y hyd] at hyq
+                obtain ⟨m, hl, hr⟩ := hinv.rel y q (restrict_some.mpr ⟨hyF, hyq⟩)
+                exact ⟨m, by rw [hlk_old y hys]; exact hl, hr.ext (hinv.vis.lookup hl) hextk⟩
+            · intro y m hl
+              by_cases hys : y ∈ state
+              · obtain ⟨v, hv⟩ := all2_mem_right hR y hys
+                rw [hv]; simp
+              · rw [hlk_old y hys] at hl
+                exact hal.dom y (hinv.bound y m hl)
+          -- the iterations
+          have iter : ∀ (fl k : Nat) (ρk ρf : Store V) (st : List V) (cnd : V),
+              (∃ vt, ρk t = some (PV.t vt) ∧ S.truth cnd = S.truth vt) →
+              AlongW ρ ρk d → All2 (fun v x => ρk x = some (PV.t v)) st state →
+              iterWhile (fun r => match r t with | some v => truthPV S v | none => none)
+                (fun r => evalBlock S fuel body r) fl ρk = some (.normal ρf) →
+              ∀ (G a : Nat), fuel ≤ G → fl + 2 ≤ a →
+              ∃ stf, loopIter S (loopBodyFn S (fun e => evalNodes S G e
+                  (bn ++ ([Node.op "" "Not" [some nb] [notb] [], Node.op "" "And" [some n2, some notb] [condOut] []]
+                    ++ ns3))) env
+                  (iv :: condIn :: ps) (condOut :: os)) a none k cnd st = some stf
+                ∧ All2 (fun v x => ρf x = some (PV.t v)) stf state ∧ AlongW ρ ρf d := by
+            intro fl
+            induction fl with
+            | zero => intro k ρk ρf st cnd _ _ _ hit; simp [iterWhile] at hit
+            | succ fl ih =>
+              intro k ρk ρf st cnd hcv hal hR hit G a hG ha
+              obtain ⟨vt, hvt, htt⟩ := hcv
+              simp only [iterWhile, hvt, truthPV] at hit
+              cases a with
+              | zero => omega
+              | succ a' =>
+                cases htr : S.truth vt with
+                | none => simp [htr] at hit
+                | some bcur =>
+                  rw [htr] at htt
+                  cases bcur with
+                  | false =>
+                    simp only [htr] at hit
+                    cases hit
+                    exact ⟨st, by simp [loopIter, htt], hR, hal⟩
+                  | true =>
+                    simp only [htr] at hit
+                    cases hbk : evalBlock S fuel body ρk with
+                    | none => simp [hbk] at hit
+                    | some o1 =>
+                      obtain ⟨ρ1, vb, bk, hpre, run1, hbv, hbt, ho1⟩ :=
+                        brkBody_run S fuel hp hal.allT (hbd ▸ hbk)
+                      simp only [hbk] at hit
+                      have invk := mkInv k cnd st ρk hal hR
+                      rw [hlive F] at invk
+                      obtain ⟨envB, evB, invB, xB, mB⟩ :=
+                        block_step S fuel hConst hId pre (vunion F [b]) hp invk hpre h4
+                      have evBG := evalNodes_mono S bn fuel G _ _ hG evB
+                      -- the break condition
+                      obtain ⟨mb, hlb, hrb⟩ := invB.rel b _ (restrict_some.mpr ⟨hbF, hbv⟩)
+                      rw [current_lookup hcurb] at hlb
+                      cases hlb
+                      -- the re-computed while condition
+                      have hl2 := current_lookup hcur
+                      have hρ1t : ρ1 t ≠ none := invB.bound t n2 hl2
+                      cases hq1 : ρ1 t with
+                      | none => exact absurd hq1 hρ1t
+                      | some q1 =>
+                        obtain ⟨v1, rfl⟩ := invB.allT t q1 hq1
+                        obtain ⟨m', hl', hr'⟩ := invB.rel t _ (restrict_some.mpr ⟨htFb, hq1⟩)
+                        rw [hl2] at hl'
+                        cases hl'
+                        obtain ⟨wn, hopn, hwn⟩ := hNot vb bk hbt
+                        obtain ⟨w, hopa, hwf, hwt⟩ := hAnd v1 wn (!bk) hwn
+                        have hn2_ne : n2 ≠ notb := by
+                          intro he'
+                          exact hnfresh (he' ▸ (invB.vis.lookup hl2))
+                        have evC : evalNodes S G envB
+                            [Node.op "" "Not" [some nb] [notb] [], Node.op "" "And" [some n2, some notb] [condOut] []]
+                            = some ((envB.set notb wn).set condOut w) := by
+                          have e1 : evalNodes S G envB [Node.op "" "Not" [some nb] [notb] []]
+                              = some (envB.set notb wn) :=
+                            evalNodes_op1 (vs := [some vb]) (by simp [List.mapM_cons, Env.getOpt, hrb.1]) hopn
+                          have e2 : evalNodes S G (envB.set notb wn)
+                              [Node.op "" "And" [some n2, some notb] [condOut] []]
+                              = some ((envB.set notb wn).set condOut w) :=
+                            evalNodes_op1 (vs := [some v1, some wn])
+                              (by simp [List.mapM_cons, Env.getOpt, Env.set_same, Env.set_other _ _ hn2_ne, hr'.1]) hopa
+                          exact evalNodes_seq (a := [Node.op "" "Not" [some nb] [notb] []]) e1 e2
+                        have xC : Ext envB ((envB.set notb wn).set condOut w) s4 s4a := by
+                          have x1 : Ext envB (envB.set notb wn) s4 s4n :=
+                            ext_set_fresh _ _ hnfresh (fun m _ => by rw [hncast])
+                          have x2 : Ext (envB.set notb wn) ((envB.set notb wn).set condOut w) s4n s4a :=
+                            ext_set_fresh _ _ hofresh (fun m _ => by rw [hocast])
+                          exact x1.trans k4n.mono x2
+                        have cs4a : CastSub s4a := k4a.sub invB.cast
+                        have invC : Inv S (vunion F [b]) ρ1 L2 ((envB.set notb wn).set condOut w) s4a :=
+                          invB.ext xC k4a.mono cs4a
+                        have hfO : ∀ pv, pv ∈ state → ∀ m, lookup L2 pv = some (.val m) →
+                            ∃ v, ((envB.set notb wn).set condOut w) m = some v ∧ ρ1 pv = some (.t v) := by
+                          intro pv hpv m hl
+                          cases hq : ρ1 pv with
+                          | none => exact absurd hq (invC.bound pv m hl)
+                          | some q =>
+                            obtain ⟨v', rfl⟩ := invC.allT pv q hq
+                            obtain ⟨m2, hlm, hrm⟩ := invC.rel pv _
+                              (restrict_some.mpr ⟨mem_vunion.mpr (Or.inl (hstF pv hpv)), hq⟩)
+                            rw [hl] at hlm
+                            cases hlm
+                            exact ⟨v', hrm.1, rfl⟩
+                        obtain ⟨envD, evD, xD, _, mD, aD⟩ :=
+                          loopOutputs_sim S G hId L2 invC.noattr state
+                            (bn ++ [Node.op "" "Not" [some nb] [notb] [], Node.op "" "And" [some n2, some notb] [condOut] []])
+                            [condOut] invC.vis hfO h5b
+                        obtain ⟨rs, hrs, hallD⟩ := outs_values aD
+                        have hcoD : envD condOut = some w := by
+                          rw [xD.envSame condOut (by rw [houused]; exact List.mem_cons_self)]
+                          exact Env.set_same _ _ _
+                        have hbodyk : loopBodyFn S (fun e => evalNodes S G e
+                            (bn ++ ([Node.op "" "Not" [some nb] [notb] [], Node.op "" "And" [some n2, some notb] [condOut] []]
+                              ++ ns3))) env
+                            (iv :: condIn :: ps) (condOut :: os) k cnd st = some (w, rs) := by
+                          unfold loopBodyFn
+                          have : evalNodes S G (Env.setMany env (iv :: condIn :: ps) (S.ofNat k :: cnd :: st))
+                              (bn ++ ([Node.op "" "Not" [some nb] [notb] [], Node.op "" "And" [some n2, some notb] [condOut] []]
+                                ++ ns3)) = some envD :=
+                            evalNodes_seq evBG (evalNodes_seq evC evD)
+                          simp only [this, Env.getMany, List.mapM_cons, hcoD, hrs]
+                          rfl
+                        have hal1 : AlongW ρ ρ1 d :=
+                          ⟨run1.allT, fun x hx => run1.dom x (hal.dom x hx),
+                           fun x hxd => by rw [run1.frame d hd x hxd]; exact hal.frame x hxd⟩
+                        cases bk with
+                        | true =>
+                          subst ho1
+                          simp only [if_true] at hit
+                          cases hit
+                          have hwfalse : S.truth w = some false := hwf (by simp)
+                          refine ⟨rs, ?_, hallD, hal1⟩
+                          unfold loopIter
+                          simp only [htt, hbodyk]
+                          cases a' with
+                          | zero => omega
+                          | succ a'' => simp [loopIter, hwfalse]
+                        | false =>
+                          subst ho1
+                          simp only [Bool.false_eq_true, if_false] at hit
+                          have hwv : S.truth w = S.truth v1 := hwt (by simp)
+                          obtain ⟨stf, hit', hRf, halF⟩ :=
+                            ih (k + 1) ρ1 ρf rs w ⟨v1, hq1, hwv⟩ hal1 hallD hit G a' hG (by omega)
+                          refine ⟨stf, ?_, hRf, halF⟩
+                          unfold loopIter
+                          simp only [htt, hbodyk]
+                          simpa using hit'
+          -- the values the loop starts with
+          have hf0 : ∀ x, x ∈ state → ∀ m, lookup L x = some (.val m) →
+              ∃ v, env m = some v ∧ ρ x = some (PV.t v) := by
+            intro x hx m hl
+            cases hq : ρ x with
+            | none => exact absurd hq (hinv.bound x m hl)
+            | some q =>
+              obtain ⟨v, rfl⟩ := hinv.allT x q hq
+              obtain ⟨m', hl', hr⟩ := hinv.rel x _ (restrict_some.mpr ⟨hstF x hx, hq⟩)
+              rw [hl] at hl'
+              cases hl'
+              exact ⟨v, hr.1, rfl⟩
+          obtain ⟨st0, hst0, hR0⟩ := inits_values hinits hf0
+          have hal0 : AlongW ρ ρ d := ⟨hinv.allT, fun _ hx => hx, fun _ _ => rfl⟩
+          obtain ⟨stf, hloop, hRf, halF⟩ :=
+            iter fuel 0 ρ ρ' st0 v0 ⟨v0, hρt, rfl⟩ hal0 hR0 he (fuel + 2) (fuel + 2) (by omega) (Nat.le_refl _)
+          -- the Loop node
+          obtain ⟨m6, f6, l6⟩ := genUniques_fresh _ h5d
+          have hc6 := genUniques_castable _ h5d
+          have k36 : CastOK s3 s6 :=
+            k4.trans (k4a.trans ((loopOutputs_cast _ _ _ _ h5b).trans (genUniques_cast _ h5d)))
+          have k06 : CastOK s s6 := k03.trans k36
+          have hlen : stf.length = outs.length := by rw [all2_len hRf, l6]
+          have evLoop : evalNodes S (fuel + 2 + 1) env
+              [Node.loop none (some oc) inits outs (iv :: condIn :: ps)
+                (bn ++ ([Node.op "" "Not" [some nb] [notb] [], Node.op "" "And" [some n2, some notb] [condOut] []] ++ ns3))
+                (condOut :: os)]
+              = some (env.setMany outs stf) := by
+            simp only [List.cons_append, List.nil_append] at hloop
+            simp [evalNodes, evalNode, Env.getOpt, hr0.1, Env.getMany, hst0, loopResult, loopTrip,
+              loopCond0, hloop, hlen]
+          have hnotin : ∀ m, m ∈ s.used → m ∉ outs := fun m hm hmo =>
+            (f6.2 m hmo).1 ((k03.trans (k4.trans (k4a.trans (loopOutputs_cast _ _ _ _ h5b)))).mono m hm)
+          have xfin : Ext env (env.setMany outs stf) s s6 :=
+            ⟨fun m hm => envSetMany_frame outs stf env m (hnotin m hm), k06.ext⟩
+          refine ⟨fuel + 2 + 1, env.setMany outs stf, ?_, ?_, xfin⟩
+          · simpa using evLoop
+          · refine ⟨hvisF, hinv.noattr.bindVals _ _, k06.sub hinv.cast, halF.allT, ?_, ?_⟩
+            · intro y q hy
+              obtain ⟨hm, hq⟩ := restrict_some.mp hy
+              by_cases hys : y ∈ state
+              · obtain ⟨r, v, hl, hev, hρ, hrn⟩ := bind_set state outs stf L env f6.1 l6 hRf y hys
+                rw [hρ] at hq
+                cases hq
+                refine ⟨r, hl, hev, ?_⟩
+                intro hcst
+                rw [hc6] at hcst
+                exact (f6.2 r hrn).1 ((k03.trans (k4.trans (k4a.trans (loopOutputs_cast _ _ _ _ h5b)))).sub
+                  hinv.cast r hcst)
+              · have hyd : y ∉ d := fun hdm => hys ((hstate y).mpr ⟨hdm, Or.inr hm⟩)
+                rw [halF.frame y hyd] at hq
+                obtain ⟨m', hl, hr⟩ := hinv.rel y q (restrict_some.mpr ⟨hW.lo_sub y hm, hq⟩)
+                exact ⟨m', by rw [lookup_bindVals_notin _ _ _ hys]; exact hl, hr.ext (hinv.vis.lookup hl) xfin⟩
+            · intro y m hl
+              by_cases hys : y ∈ state
+              · obtain ⟨v, hv⟩ := all2_mem_right hRf y hys
+                rw [hv]; simp
+              · rw [lookup_bindVals_notin _ _ _ hys] at hl
+                exact halF.dom y (hinv.bound y m hl)
+
+/-! ## The two refusals added by 9b326d7 and 9f69276 -/
+
+/-- A `for` loop whose loop variable is live after the loop is never translated. -/
+theorem for_live_target_refused (L : Locals) (i : Name) (ok : Bool) (b : Expr) (body : List Stmt) (lo : VSet)
+    (hi : i ∈ lo) (s : St) (r : (Locals × List Node) × St) :
+    convStmt L (.for_ i ok b body) lo s ≠ .ok r := by
+  intro h
+  obtain ⟨⟨L', ns⟩, s'⟩ := r
+  unfold convStmt at h
+  by_cases hok : ok = true
+  · simp only [hok, Bool.not_true, Bool.false_eq_true, if_false] at h
+    cases hs : loopState body lo with
+    | none => simp only [hs] at h; exact (failM_ok h).elim
+    | some state =>
+      simp only [hs] at h
+      mbind h with p s1 h1
+      obtain ⟨ob, ns0⟩ := p
+      try dsimp only at h
+      mbind h with condIn s2 h2
+      have hnl := (forCondIn_ok h2).1
+      have hc := List.contains_iff_mem.mpr hi
+      rw [hnl] at hc
+      cases hc
+  · simp only [hok, Bool.not_false, if_true] at h; exact (failM_ok h).elim
+
+/-- A loop without loop-carried state is never translated (fc696f7). -/
+theorem stateless_for_refused (L : Locals) (i : Name) (ok : Bool) (b : Expr) (body : List Stmt) (lo : VSet)
+    (hs : loopState body lo = some []) (s : St) (r : (Locals × List Node) × St) :
+    convStmt L (.for_ i ok b body) lo s ≠ .ok r := by
+  intro h
+  obtain ⟨⟨L', ns⟩, s'⟩ := r
+  unfold convStmt at h
+  by_cases hok : ok = true
+  · simp only [hok, Bool.not_true, Bool.false_eq_true, if_false, hs] at h
+    mbind h with p s1 h1
+    obtain ⟨ob, ns0⟩ := p
+    try dsimp only at h
+    mbind h with condIn s2 h2
+    unfold forCondIn at h2
+    mbind h2 with c' sx hx
+    cases hl : lo.contains i with
+    | true => simp only [hl, if_true] at h2; exact (failM_ok h2).elim
+    | false =>
+      simp only [hl, Bool.false_eq_true, if_false] at h2
+      exact (needState_ok h2).1 rfl
+  · simp only [hok, Bool.not_false, if_true] at h; exact (failM_ok h).elim
+
+/-- A `return` followed by further statements is never translated. -/
+theorem non_last_return_refused (inputs : List Name) (rc : Option Nat) (L : Locals) (es : List Expr) (bare : Bool)
+    (st : Stmt) (ss : List Stmt) (outs : List Name) (s : St) (r : (List Node × List Name) × St) :
+    convTop inputs rc L (.ret es bare :: st :: ss) outs s ≠ .ok r := by
+  intro h
+  obtain ⟨⟨ns, outs'⟩, s'⟩ := r
+  unfold convTop at h
+  mbind h with p s1 h1
+  have := (onlyLast_ok h1).1
+  simp at this
+
 /-! ## Function level -/
 
 theorem forLine_cons {st : Stmt} {ss : List Stmt} (h : forLine (st :: ss) = true) :
@@ -998,9 +2443,34 @@ theorem forLine_cons {st : Stmt} {ss : List Stmt} (h : forLine (st :: ss) = true
     | cons s2 ss2 => simp [forTopStmt, ifStmt] at h
   | _ => right; simpa using h
 
-theorem for_run (S : Sem V) (fuel : Nat) {i : Name} {b : Expr} {body : List Stmt} {d : VSet}
-    {ρ : Store V} {o : Outcome V} (hb : tensorRhs b = true) (hbody : ifBlock body = true)
-    (hd : assignedBlock body = some d) (hρ : AllT ρ)
+theorem splitBrk_eq {body pre : List Stmt} {t : Name} (h : splitBrk body = some (pre, t)) :
+    body = pre ++ brkTail t := by
+  unfold splitBrk at h
+  cases hl : body.getLast? with
+  | none => simp [hl] at h
+  | some st =>
+    have hbody : body.dropLast ++ [st] = body := by
+      have hne : body ≠ [] := by intro hc; subst hc; simp at hl
+      have h1 := List.dropLast_concat_getLast hne
+      have h2 := List.getLast?_eq_some_getLast hne
+      rw [hl] at h2
+      injection h2 with h2
+      rw [h2]; exact h1
+    cases st with
+    | brk c =>
+      cases c with
+      | var t' =>
+        simp only [hl, Option.some.injEq, Prod.mk.injEq] at h
+        obtain ⟨rfl, rfl⟩ := h
+        exact hbody.symm
+      | _ => simp [hl] at h
+    | _ => simp [hl] at h
+
+theorem for_run (S : Sem V) (fuel : Nat) {i : Name} {b : Expr} {body : List Stmt}
+    {ρ : Store V} {o : Outcome V} (hb : tensorRhs b = true)
+    (hrun : ∀ (n k : Nat) (ρ0 : Store V) (o : Outcome V), AllT ρ0 →
+      iterFor S i (fun r => evalBlock S fuel body r) n k ρ0 = some o → ∃ ρ', o = .normal ρ')
+    (hρ : AllT ρ)
     (he : evalStmt S fuel (.for_ i true b body) ρ = some o) : ∃ ρ', o = .normal ρ' := by
   unfold evalStmt at he
   simp only [Bool.not_true, Bool.false_eq_true, if_false] at he
@@ -1013,19 +2483,167 @@ theorem for_run (S : Sem V) (fuel : Nat) {i : Name} {b : Expr} {body : List Stmt
     | none => simp [hn] at he
     | some n =>
       simp only [hn] at he
-      obtain ⟨ρ', ho, _⟩ := iterFor_run S fuel i hbody hd n 0 hρ he
-      exact ⟨ρ', ho⟩
+      exact hrun n 0 ρ o hρ he
+
+/-- The `while` case of `convStmt`, with the choice whether the iteration-number input is bound to the Python
+name `infinite_loop` made explicit. -/
+def convWhileAt (L : Locals) (t : Name) (body : List Stmt) (lo : VSet) (bindIt : Bool) : M (Locals × List Node) :=
+  match loopState body lo with
+  | none => failM .value
+  | some state => do
+    let condIn ← genUnique t
+    let (oc, ns0) ← whileCond L t state
+    let (L1, iv, ps) ← loopEnter L "infinite_loop" bindIt state
+    let (L2, bn, bc) ← convLoopBody L1 body (loopBodyLo (.while_ (.var t) body) lo)
+    let (L', nl) ← loopFinish L L2 state none (some oc) condIn iv ps (some t) bn bc
+    pure (L', ns0 ++ nl)
+
+theorem iterWhile_run (S : Sem V) (fuel : Nat) {body : List Stmt} {cond : Store V → Option Bool}
+    (hrun : ∀ (ρ0 : Store V) (o : Outcome V), AllT ρ0 → evalBlock S fuel body ρ0 = some o →
+      ∃ ρ1, (o = .normal ρ1 ∨ o = .broke ρ1) ∧ AllT ρ1) :
+    ∀ (fl : Nat) {ρ : Store V} {o : Outcome V}, AllT ρ →
+      iterWhile cond (fun r => evalBlock S fuel body r) fl ρ = some o → ∃ ρ', o = .normal ρ' := by
+  intro fl
+  induction fl with
+  | zero => intro ρ o _ h; simp [iterWhile] at h
+  | succ n ih =>
+    intro ρ o hρ h
+    simp only [iterWhile] at h
+    cases hc : cond ρ with
+    | none => simp [hc] at h
+    | some bc =>
+      cases bc with
+      | false => simp only [hc] at h; cases h; exact ⟨ρ, rfl⟩
+      | true =>
+        simp only [hc] at h
+        cases hb : evalBlock S fuel body ρ with
+        | none => simp [hb] at h
+        | some o1 =>
+          obtain ⟨ρ1, ho, h1⟩ := hrun ρ o1 hρ hb
+          simp only [hb] at h
+          rcases ho with rfl | rfl
+          · exact ih h1 h
+          · simp only at h; cases h; exact ⟨ρ1, rfl⟩
+
+theorem whileAt_step (S : Sem V) (fuel : Nat) (hConst : ∀ l, ∃ c, constOf S l = some c)
+    (hId : ∀ v, S.op "" "Identity" [some v] [] = some [v])
+    (hNot : ∀ v bk, S.truth v = some bk → ∃ w, S.op "" "Not" [some v] [] = some [w] ∧ S.truth w = some (!bk))
+    (hAnd : ∀ x y yb, S.truth y = some yb → ∃ w, S.op "" "And" [some x, some y] [] = some [w] ∧
+      (yb = false → S.truth w = some false) ∧ (yb = true → S.truth w = S.truth x))
+    {t : Name} {body : List Stmt} {lo : VSet} {ρ : Store V} {o : Outcome V} {L L' : Locals} {env : Env V}
+    {s s' : St} {ns : List Node}
+    (hok : whileOK t body lo = true)
+    (hinv : Inv S (liveInStmt (.while_ (.var t) body) lo) ρ L env s)
+    (he : evalStmt S fuel (.while_ (.var t) body) ρ = some o)
+    (h : convWhileAt L t body lo false s = .ok ((L', ns), s'))
+    (hmono : Mono s s') (hvisF : VisOK s'.used L') :
+    ∃ ρ1, o = .normal ρ1 ∧ ∃ G env', evalNodes S G env ns = some env' ∧ Inv S lo ρ1 L' env' s' := by
+  have hFeq : liveInStmt (.while_ (.var t) body) lo = loopBodyLo (.while_ (.var t) body) lo := by
+    simp [liveInStmt, loopBodyLo]
+  rw [hFeq] at hinv
+  unfold whileOK at hok
+  simp only [Bool.and_eq_true] at hok
+  obtain ⟨⟨hbody, hside⟩, hstab⟩ := hok
+  cases hd : assignedBlock body with
+  | none => simp [hd] at hside
+  | some d =>
+    cases hs : loopState body lo with
+    | none => simp [hd, hs] at hside
+    | some state =>
+      simp only [hd, hs, Bool.or_eq_true, Bool.not_eq_true', List.contains_iff_mem] at hside
+      have hside' : t ∈ state ∨ t ∉ liveInBlock body (loopBodyLo (.while_ (.var t) body) lo) := by
+        rcases hside with h' | h'
+        · exact Or.inl h'
+        · right
+          intro hm
+          have := List.contains_iff_mem.mpr hm
+          rw [h'] at this; cases this
+      -- source side
+      unfold evalStmt at he
+      simp only [evalExpr] at he
+      -- converter side
+      unfold convWhileAt at h
+      simp only [hs] at h
+      mbind h with condIn s2 h2
+      mbind h with p s2' h1
+      have h1 := whileCond_ok h1
+      obtain ⟨oc, ns0⟩ := p
+      try dsimp only at h
+      mbind h with p s3 h3
+      obtain ⟨L1, iv, ps⟩ := p
+      try dsimp only at h
+      mbind h with p s4 h4
+      obtain ⟨L2, bn, bc⟩ := p
+      try dsimp only at h
+      mbind h with p s5 h5
+      obtain ⟨L'', nl⟩ := p
+      try dsimp only at h
+      obtain ⟨q1, q2⟩ := pure_ok h
+      cases q1; subst q2
+      unfold loopBodyOK at hbody
+      rcases Bool.or_eq_true_iff.mp hbody with hbody | hbody
+      · have hW := whileLive_of_stable (t := t) (body := body) (lo := lo)
+          (fun X y hy => live_rel_block body (A := []) (X := X) hbody (fun z hz => Or.inr hz) hy) hstab
+        obtain ⟨ρ1, rfl⟩ := iterWhile_run S fuel
+          (fun ρ0 o h0 hb => by
+            obtain ⟨ρ1, ho, r1⟩ := ifBlock_run S fuel body hbody h0 hb
+            exact ⟨ρ1, Or.inl ho, r1.allT⟩) fuel hinv.allT he
+        obtain ⟨G, env', ev, inv', _⟩ := while_core S fuel hConst hId hbody hd hs hW hside' hinv he
+          h2 h1 h3 h4 h5 hmono hvisF
+        exact ⟨ρ1, rfl, G, env', ev, inv'⟩
+      · cases hsp : splitBrk body with
+        | none => simp [hsp] at hbody
+        | some pt =>
+          obtain ⟨pre, b⟩ := pt
+          simp only [hsp] at hbody
+          have hbd := splitBrk_eq hsp
+          have hdp : assignedBlock pre = some d := by rw [← assigned_brk pre b, ← hbd]; exact hd
+          have hW := whileLive_of_stable (t := t) (body := body) (lo := lo)
+            (fun X y hy => by rw [hbd] at hy ⊢; exact live_rel_brk hbody hy) hstab
+          obtain ⟨ρ1, rfl⟩ := iterWhile_run S fuel
+            (fun ρ0 o h0 hb => by
+              rw [hbd] at hb
+              obtain ⟨ρ1, v, bk, _, run1, _, _, ho⟩ := brkBody_run S fuel hbody h0 hb
+              refine ⟨ρ1, ?_, run1.allT⟩
+              cases bk with
+              | true => right; simpa using ho
+              | false => left; simpa using ho) fuel hinv.allT he
+          obtain ⟨G, env', ev, inv', _⟩ := whileB_core S fuel hConst hId hNot hAnd hbd hbody hdp hs hW hside'
+            hinv he h2 h1 h3 h4 h5 hmono hvisF
+          exact ⟨ρ1, rfl, G, env', ev, inv'⟩
+
+theorem convStmt_while (L : Locals) (t : Name) (body : List Stmt) (lo : VSet) :
+    convStmt L (.while_ (.var t) body) lo = convWhileAt L t body lo false := by
+  unfold convStmt convWhileAt
+  rfl
+
+theorem stateless_while_refused (L : Locals) (t : Name) (body : List Stmt) (lo : VSet)
+    (hs : loopState body lo = some []) (s : St) (r : (Locals × List Node) × St) :
+    convStmt L (.while_ (.var t) body) lo s ≠ .ok r := by
+  intro h
+  obtain ⟨⟨L', ns⟩, s'⟩ := r
+  rw [convStmt_while] at h
+  unfold convWhileAt at h
+  simp only [hs] at h
+  mbind h with condIn s2 h2
+  mbind h with p s2' h1
+  unfold whileCond at h1
+  mbind h1 with r' sx hx
+  exact (needState_ok h1).1 rfl
 
 theorem top_step (S : Sem V) (fuel : Nat) (hConst : ∀ l, ∃ c, constOf S l = some c)
     (hId : ∀ v, S.op "" "Identity" [some v] [] = some [v]) (hT : S.truth (S.ofBool true) = some true)
+    (hNot : ∀ v bk, S.truth v = some bk → ∃ w, S.op "" "Not" [some v] [] = some [w] ∧ S.truth w = some (!bk))
+    (hAnd : ∀ x y yb, S.truth y = some yb → ∃ w, S.op "" "And" [some x, some y] [] = some [w] ∧
+      (yb = false → S.truth w = some false) ∧ (yb = true → S.truth w = S.truth x))
     (st : Stmt) (lo : VSet) {ρ : Store V} {o : Outcome V} {L L' : Locals} {env : Env V} {s s' : St}
     {ns : List Node} (hst : forTopStmt st lo = true) (hinv : Inv S (liveInStmt st lo) ρ L env s)
     (he : evalStmt S fuel st ρ = some o) (h : convStmt L st lo s = .ok ((L', ns), s')) :
     ∃ ρ1, o = .normal ρ1 ∧ ∃ G env', evalNodes S G env ns = some env' ∧ Inv S lo ρ1 L' env' s' := by
   by_cases hfor : ∃ i ok b body, st = .for_ i ok b body
   · obtain ⟨i, ok, b, body, rfl⟩ := hfor
-    simp only [forTopStmt, forOK, Bool.and_eq_true, Bool.not_eq_true'] at hst
-    obtain ⟨rfl, ⟨⟨⟨hb, hbody⟩, hilo⟩, hdd⟩, hstab⟩ := hst
+    simp only [forTopStmt, forOK, Bool.and_eq_true] at hst
+    obtain ⟨rfl, ⟨⟨hb, hbody⟩, hdd⟩, hstab⟩ := hst
     cases hd : assignedBlock body with
     | none => simp [hd] at hdd
     | some d =>
@@ -1034,17 +2652,46 @@ theorem top_step (S : Sem V) (fuel : Nat) (hConst : ∀ l, ∃ c, constOf S l = 
         intro hm
         have : d.contains i = true := List.contains_iff_mem.mpr hm
         rw [hdd] at this; cases this
-      have hilo' : i ∉ lo := by
-        intro hm
-        have : lo.contains i = true := List.contains_iff_mem.mpr hm
-        rw [hilo] at this; cases this
-      obtain ⟨ρ1, rfl⟩ := for_run S fuel hb hbody hd hinv.allT he
-      obtain ⟨G, env', ev, inv', _, _⟩ := for_step S fuel hConst hId hT hb hbody hd hid hilo'
-        (forLive_of_stable hbody hstab) hinv he h
-      exact ⟨ρ1, rfl, G, env', ev, inv'⟩
-  · have hif : ifStmt st = true := by
+      unfold loopBodyOK at hbody
+      rcases Bool.or_eq_true_iff.mp hbody with hbody | hbody
+      · obtain ⟨ρ1, rfl⟩ := for_run S fuel hb
+          (fun n k ρ0 o h0 hit => by
+            obtain ⟨ρ', ho, _⟩ := iterFor_run S fuel i hbody hd n k h0 hit
+            exact ⟨ρ', ho⟩) hinv.allT he
+        obtain ⟨G, env', ev, inv', _, _⟩ := for_step S fuel hConst hId hT hb hbody hd hid
+          (forLive_of_stable hbody hstab) hinv he h
+        exact ⟨ρ1, rfl, G, env', ev, inv'⟩
+      · cases hsp : splitBrk body with
+        | none => simp [hsp] at hbody
+        | some pt =>
+          obtain ⟨pre, t⟩ := pt
+          simp only [hsp] at hbody
+          have hbd := splitBrk_eq hsp
+          have hdp : assignedBlock pre = some d := by rw [← assigned_brk pre t, ← hbd]; exact hd
+          obtain ⟨ρ1, rfl⟩ := for_run S fuel hb
+            (fun n k ρ0 o h0 hit => by
+              rw [hbd] at hit
+              exact iterForB_run S fuel i hbody n k h0 hit) hinv.allT he
+          have hF := forLive_of_stable' (i := i) (ok := true) (b := b) (body := body) (lo := lo)
+            (fun X y hy => by rw [hbd] at hy ⊢; exact live_rel_brk hbody hy) hstab
+          obtain ⟨G, env', ev, inv', _, _⟩ := forB_step S fuel hConst hId hT hNot hbd hb hbody hdp hid
+            hF hinv he h
+          exact ⟨ρ1, rfl, G, env', ev, inv'⟩
+  · by_cases hwh : ∃ t body, st = .while_ (.var t) body
+    · obtain ⟨t, body, rfl⟩ := hwh
+      simp only [forTopStmt] at hst
+      have hfr := convStmt_fresh L _ lo h
+      have hsc := convStmt_scope L _ lo hinv.vis (fun x hx => hx) h
+      rw [convStmt_while] at h
+      exact whileAt_step S fuel hConst hId hNot hAnd hst hinv he h hfr.1
+        (hsc.2.mono (fun y hy => after_in_used hfr hy))
+    have hif : ifStmt st = true := by
       cases st with
       | for_ i ok b body => exact absurd ⟨i, ok, b, body, rfl⟩ hfor
+      | while_ c body =>
+        cases c with
+        | var t => exact absurd ⟨t, body, rfl⟩ hwh
+        | _ => simp [forTopStmt, ifStmt] at hst
       | _ => exact hst
     obtain ⟨ρ1, rfl, _⟩ := ifStmt_run S fuel st hif hinv.allT he
     obtain ⟨env1, ev1, inv1, _, _⟩ := stmt_step S fuel hConst hId st _ hif hinv he h
@@ -1052,6 +2699,9 @@ theorem top_step (S : Sem V) (fuel : Nat) (hConst : ∀ l, ∃ c, constOf S l = 
 
 theorem convTop_for_sim (S : Sem V) (fuel : Nat) (hConst : ∀ l, ∃ c, constOf S l = some c)
     (hId : ∀ v, S.op "" "Identity" [some v] [] = some [v]) (hT : S.truth (S.ofBool true) = some true)
+    (hNot : ∀ v bk, S.truth v = some bk → ∃ w, S.op "" "Not" [some v] [] = some [w] ∧ S.truth w = some (!bk))
+    (hAnd : ∀ x y yb, S.truth y = some yb → ∃ w, S.op "" "And" [some x, some y] [] = some [w] ∧
+      (yb = false → S.truth w = some false) ∧ (yb = true → S.truth w = S.truth x))
     {inputs : List Name} {rc : Option Nat} :
     ∀ (body : List Stmt) (L : Locals) {ρ : Store V} {env : Env V} {s s' : St} {ns : List Node}
       {outs : List Name} {pvs : List (PV V)} {vs : List V},
@@ -1086,18 +2736,22 @@ theorem convTop_for_sim (S : Sem V) (fuel : Nat) (hConst : ∀ l, ∃ c, constOf
         try dsimp only at h
         obtain ⟨q1, q2⟩ := pure_ok h
         cases q1
-        obtain ⟨ρ1, rfl, G1, env1, ev1, inv1⟩ := top_step S fuel hConst hId hT st _ hst hinv hs h1
+        obtain ⟨ρ1, rfl, G1, env1, ev1, inv1⟩ := top_step S fuel hConst hId hT hNot hAnd st _ hst hinv hs h1
         simp only [hs] at he
         obtain ⟨G2, env2, ev2, hm2⟩ := ih L1 hss inv1 he hv h2
         exact ⟨max G1 G2, env2,
           evalNodes_seq (evalNodes_mono S ns1 G1 _ _ _ (Nat.le_max_left _ _) ev1)
             (evalNodes_mono S _ G2 _ _ _ (Nat.le_max_right _ _) ev2), hm2⟩
 
-/-- **Refinement for functions made of assignments, nested `if`/`else` and `for i in range(n)` loops.**
+/-- **Refinement for functions made of assignments, nested `if`/`else`, `for i in range(n)` and `while t` loops
+(with or without a trailing `if b: break`).**
 The graph may need more evaluation fuel than the Python run (one unit per nesting level plus the trip
 count), so the conclusion is for some fuel; by `evalNodes_mono` it then holds for every larger one. -/
 theorem convert_correct_for (S : Sem V) (hConst : ∀ l, ∃ c, constOf S l = some c)
     (hId : ∀ v, S.op "" "Identity" [some v] [] = some [v]) (hT : S.truth (S.ofBool true) = some true)
+    (hNot : ∀ v bk, S.truth v = some bk → ∃ w, S.op "" "Not" [some v] [] = some [w] ∧ S.truth w = some (!bk))
+    (hAnd : ∀ x y yb, S.truth y = some yb → ∃ w, S.op "" "And" [some x, some y] [] = some [w] ∧
+      (yb = false → S.truth w = some false) ∧ (yb = true → S.truth w = S.truth x))
     {f : Func} {g : Graph}
     (hil : forLine f.body = true) (hten : AllTensorParams f.params)
     (hnames : (f.params.map Param.name).Nodup) (h : convert f = .ok g)
@@ -1166,7 +2820,7 @@ theorem convert_correct_for (S : Sem V) (hConst : ∀ l, ∃ c, constOf S l = so
                 simp only [List.mem_singleton] at hfr
                 subst hfr
                 exact setMany_defined _ _ _ x (by simpa using hlen.symm) (paramFrame_key _ x n hm)
-            obtain ⟨G, env', ev, hm⟩ := convTop_for_sim S fuel hConst hId hT f.body
+            obtain ⟨G, env', ev, hm⟩ := convTop_for_sim S fuel hConst hId hT hNot hAnd f.body
               [paramFrame f.params] hil hinv hb he hc
             refine ⟨G, ?_⟩
             unfold evalGraph
